@@ -1,7 +1,8 @@
 //! C06 Integers, dimensions, glue: scan, print and compute exactly as TeX does.
 
 use crate::engine::*;
-use crate::models::tex_arith::{self as ta, GlueVal, Scanned, Unit, UnitKind};
+use crate::engine::panics;
+use crate::models::tex_arith::{self as ta, GlueVal, Unit, UnitKind};
 use crate::texvm::{self, VmOptions};
 use common::Scaled;
 use proptest::prelude::*;
@@ -69,6 +70,71 @@ fn check_scaled_value(s: i64, parse_from_string_negative_known: bool) -> Result<
     Ok(frac.len() >= 3)
 }
 
+/// Display of values beyond max_dimen (legal register contents after a silent \advance wrap):
+/// only the printed form is defined by TeX (§103); nothing scans back.
+fn check_scaled_display_only(s: i64) -> Result<bool, String> {
+    let sc = Scaled(s as i32);
+    let model = ta::print_scaled(s);
+    let no_units = format!("{}", sc.display_no_units());
+    if no_units != model {
+        return Err(format!("display_no_units({s}) = {no_units:?}, print_scaled gives {model:?}"));
+    }
+    let disp = format!("{}", sc);
+    if disp != format!("{model}pt") {
+        return Err(format!("Display({s}) = {disp:?}, expected {model}pt"));
+    }
+    Ok(true)
+}
+
+/// `<integer>[.<fraction>]<unit>` strings for `Scaled::parse_from_string`, every physical unit.
+#[derive(Clone, Debug, Serialize, Deserialize)]
+pub struct ScaledString {
+    negative: bool,
+    int: String,
+    frac: Option<String>,
+    unit: Unit,
+}
+
+fn scaled_string_oracle(c: &ScaledString, case: &mut Case) -> Verdict {
+    let mut text = String::new();
+    if c.negative {
+        text.push('-');
+    }
+    text.push_str(&c.int);
+    if let Some(f) = &c.frac {
+        text.push('.');
+        text.push_str(f);
+    }
+    text.push_str(c.unit.keyword());
+    case.note = Some(text.clone());
+    let (iv, big) = ta::scan_digits(&digits_of(&c.int, 10), 10);
+    let fd = c.frac.as_ref().map(|f| digits_of(f, 10)).unwrap_or_default();
+    let nfrac = fd.len();
+    let m = ta::finish_dimen(&ta::DimenParts { negative: c.negative, int_value: iv, int_too_big: big, frac_digits: fd }, UnitKind::Unit(c.unit), 0, 0);
+    case.class_if(c.unit != Unit::Pt, "non-pt unit");
+    case.class_if(c.negative && c.unit != Unit::Pt, "negative non-pt");
+    case.class_if(nfrac > 5, "fraction >5 digits");
+    case.class_if(nfrac > 17, "fraction >17 digits");
+    case.class_if(c.frac.is_none(), "no fraction");
+    case.class_if(m.errors > 0, "out of range");
+    let got = Scaled::parse_from_string(&text);
+    match (&got, m.errors) {
+        (Ok(v), 0) if v.0 as i64 == m.value => Verdict::pass(c.unit != Unit::Pt || nfrac >= 3),
+        (Err(_), e) if e > 0 => Verdict::pass(true),
+        _ => Verdict::Fail(format!("parse_from_string({text:?}) = {got:?}; TeX's scan_dimen (448-458) gives {} sp with {} error(s)", m.value, m.errors)),
+    }
+}
+
+fn scaled_string_strategy() -> impl Strategy<Value = ScaledString> {
+    (
+        any::<bool>(),
+        dim_int_strategy(),
+        proptest::option::weighted(0.75, frac_strategy().prop_map(|(_, d)| d)),
+        proptest::sample::select(vec![Unit::Pt, Unit::In, Unit::Pc, Unit::Cm, Unit::Mm, Unit::Bp, Unit::Dd, Unit::Cc, Unit::Sp]),
+    )
+        .prop_map(|(negative, int, frac, unit)| ScaledString { negative, int, frac, unit })
+}
+
 // ------------------------------------------------------------------------------------
 // VM programs
 
@@ -89,17 +155,64 @@ impl Signs {
     }
 }
 
+/// A run of blank tokens: bits 1-2 = how many (0..=3), bit 0 = the first one is a blank of the
+/// source line (the others, and all of them otherwise, come from the macro `\s` = `\def\s{ }`,
+/// because consecutive source blanks collapse into one token).
+#[derive(Clone, Copy, Debug, Default, PartialEq, Eq, Serialize, Deserialize)]
+pub struct Blanks(pub u8);
+
+impl Blanks {
+    fn count(self) -> u8 {
+        (self.0 >> 1) % 4
+    }
+}
+
+/// Spelling of the keywords and optional blanks of all following operations (a generator-side
+/// pragma; `upper_other` and `alias` are real TeX: category code changes, `\countdef` alias).
+/// Every position used here is one where TeX's scan_keyword (§407) / "get the next non-blank
+/// non-call token" (§406) accepts any number of blank tokens and either case of each letter.
+#[derive(Clone, Debug, Default, PartialEq, Eq, Serialize, Deserialize)]
+#[serde(default)]
+pub struct Style {
+    /// per-letter upper-case masks
+    pub by_mask: u8,
+    pub plus_mask: u8,
+    pub minus_mask: u8,
+    pub true_mask: u8,
+    /// bits 0-2: `f` `i` `l`; bits 3-5: the further `l`s
+    pub fil_mask: u8,
+    pub pre_by: Blanks,
+    pub pre_plus: Blanks,
+    pub pre_minus: Blanks,
+    pub post_true: Blanks,
+    pub pre_unit: Blanks,
+    pub pre_fil: Blanks,
+    pub pre_l: [Blanks; 3],
+    /// blanks after a glue specification without `minus` part (eaten by scan_keyword("minus"))
+    pub post_glue: Blanks,
+    /// upper-case letters get category 12 (scan_keyword and hex digits do not look at categories)
+    pub upper_other: bool,
+    /// `\count3` is addressed through its `\countdef` alias `\cc`
+    pub alias: bool,
+}
+
 #[derive(Clone, Debug, Serialize, Deserialize)]
 pub enum IntSrc {
     Dec(String),
     Oct(String),
     Hex(String),
-    /// `a  `A  `\a  `\%  `é  `~(active, undefined)
+    /// `a  `A  `\a  `\%  `é  `\^^M  `\b (macro)
     Alpha(u8),
     Count(u8),
     Dimen(u8),
     Skip(u8),
+    /// internal integers that are not \count registers, see `INTERNALS`
+    Internal(u8),
 }
+
+/// (text, value; None = \count3 through its \countdef alias)
+const INTERNALS: [(&str, Option<i64>); 5] = [("\\ca", Some(65)), ("\\cb", Some(0x7FFF)), ("\\cc", None), ("\\catcode`a", Some(11)), ("\\mathcode`a", Some(0x1234))];
+const PREAMBLE: &str = "\\def\\b{c}\\def\\s{ }\\chardef\\ca=65 \\mathchardef\\cb=\"7FFF \\countdef\\cc=3 \\mathcode`a=\"1234 ";
 
 #[derive(Clone, Debug, Serialize, Deserialize)]
 pub enum UnitSpec {
@@ -108,24 +221,59 @@ pub enum UnitSpec {
     Dimen(u8),
     Skip(u8),
     Count(u8),
+    /// `\ca`, `\cb`, … as the unit (an integer is taken as that many sp, §455)
+    Internal(u8),
 }
 
 #[derive(Clone, Debug, Serialize, Deserialize)]
 pub enum DimSrc {
-    /// integer digits (decimal), optional fraction (separator is comma?, digits), units
-    Const { int: Option<String>, frac: Option<(bool, String)>, unit: UnitSpec },
-    /// octal/hex integer part, then units
-    Radix { hex: bool, digits: String, unit: UnitSpec },
+    /// integer digits (decimal), optional fraction (separator is comma?, digits), units.
+    /// quirk (only honoured directly in \dimenN= / \advance\dimenN, with a keyword unit):
+    /// 1 = a blank before the decimal point (`1 .5pt`: the blank ends the number, §444/448, so TeX
+    /// sees no unit), 2 = a blank inside the unit keyword (`1p t`, no match by §407).
+    Const {
+        int: Option<String>,
+        frac: Option<(bool, String)>,
+        unit: UnitSpec,
+        #[serde(default)]
+        quirk: u8,
+    },
+    /// octal/hex integer part, then units; `frac` (plain context only): `"10.5pt`, the point does
+    /// not start a fraction after a non-decimal constant (§448 radix=10 test)
+    Radix {
+        hex: bool,
+        digits: String,
+        unit: UnitSpec,
+        #[serde(default)]
+        frac: Option<String>,
+    },
     Dimen(u8),
     Skip(u8),
     CountUnits(u8, UnitSpec),
+    InternalUnits(u8, UnitSpec),
+}
+
+#[derive(Clone, Debug, Serialize, Deserialize)]
+pub enum FilCoeff {
+    Count(u8),
+    Oct(String),
+    Hex(String),
+    Internal(u8),
 }
 
 #[derive(Clone, Debug, Serialize, Deserialize)]
 pub enum StretchSrc {
     Dim(Signs, DimSrc),
-    /// digits, fraction, number of l's after "fi" (1..=4; 4 is one too many)
-    Fil { signs: Signs, int: Option<String>, frac: Option<(bool, String)>, ls: u8 },
+    /// digits, fraction, number of l's after "fi" (1..=4; 4 is one too many);
+    /// `coeff` replaces digits/fraction by an internal integer or an octal/hex constant
+    Fil {
+        signs: Signs,
+        int: Option<String>,
+        frac: Option<(bool, String)>,
+        ls: u8,
+        #[serde(default)]
+        coeff: Option<FilCoeff>,
+    },
 }
 
 #[derive(Clone, Debug, Serialize, Deserialize)]
@@ -141,6 +289,16 @@ pub enum Kind {
     Skip,
 }
 
+impl Kind {
+    fn name(self) -> &'static str {
+        match self {
+            Kind::Count => "count",
+            Kind::Dimen => "dimen",
+            Kind::Skip => "skip",
+        }
+    }
+}
+
 #[derive(Clone, Debug, Serialize, Deserialize)]
 pub enum Op {
     SetCount(u8, Signs, IntSrc),
@@ -151,6 +309,11 @@ pub enum Op {
     AdvSkip(u8, bool, Signs, GlueSrc),
     Mul(Kind, u8, bool, Signs, IntSrc),
     Div(Kind, u8, bool, Signs, IntSrc),
+    /// `\<kind>J=\the\<kind>I`: print, then scan the printed tokens back through the VM scanner
+    Copy(Kind, u8, u8),
+    /// `\the` of an internal integer that is not a \count register
+    ReadInternal(u8),
+    Style(Style),
 }
 
 #[derive(Clone, Copy, Default)]
@@ -163,11 +326,48 @@ pub struct Deviations {
     pub glue_sum_ignores_zero: bool,
     /// `\a in an alphabetic constant is expanded when \a is a macro
     pub alpha_constant_expands: bool,
+    /// blank tokens between `fil` and a further `l` (or between two such `l`s) end the unit: the
+    /// order of infinity counts only the `l`s in front of them, one blank is taken as the optional
+    /// space after the dimension and the remaining `l`s stay in the input
+    pub fil_l_blank_ends_unit: bool,
 }
 
 const NREG: usize = 3;
-const EM: i64 = 12 * ta::UNITY;
-const EX: i64 = 12 * ta::UNITY;
+/// The harness state overrides Texlang's default font quantities (12pt each) by two different
+/// values that are not multiples of 2^16, so that em/ex cannot be confused and xn_over_d truncates.
+const EM: i64 = 655361;
+const EX: i64 = 282168;
+
+/// The kinds of error the property's statement names.
+#[derive(Clone, Copy, Debug, PartialEq, Eq, PartialOrd, Ord)]
+pub enum ErrKind {
+    /// "Number too big" (§445)
+    TooBig,
+    /// "Dimension too large" (§460)
+    DimTooLarge,
+    /// "Arithmetic overflow" from \multiply (§1236)
+    Overflow,
+    /// "Arithmetic overflow" from \divide by zero (§1236); Texlang words it differently
+    DivZero,
+    /// "Illegal unit of measure" (§454, 456, 459) and anything else
+    Other,
+}
+
+/// Classification of a Texlang error title.
+fn classify(title: &str) -> ErrKind {
+    let t = title.to_ascii_lowercase();
+    if t.contains("division by zero") {
+        ErrKind::DivZero
+    } else if t.contains("overflow") {
+        ErrKind::Overflow
+    } else if t.contains("dimension") && (t.contains("range") || t.contains("large")) {
+        ErrKind::DimTooLarge
+    } else if t.contains("number") && (t.contains("range") || t.contains("big")) {
+        ErrKind::TooBig
+    } else {
+        ErrKind::Other
+    }
+}
 
 #[derive(Clone)]
 struct Regs {
@@ -176,15 +376,48 @@ struct Regs {
     skip: [GlueVal; NREG],
 }
 
+/// One operation: its source text (run as one VM source), the text it must produce, its errors.
+pub struct Seg {
+    pub text: String,
+    pub expected: String,
+    pub errs: Vec<ErrKind>,
+    /// TeX negates -2^31 while executing this segment: nothing is demanded of it or of later ones
+    pub undefined: bool,
+}
+
 struct Model {
     regs: Regs,
     text: String,
     expected: String,
-    errors: u32,
+    errs: Vec<ErrKind>,
+    segs: Vec<Seg>,
     dev: Deviations,
     /// a case TeX leaves undefined (negating -2^31) was reached
     undefined: bool,
     classes: Vec<&'static str>,
+    style: Style,
+    upper_other_on: bool,
+    /// deviating model only: where in `text` the `l`s begin that Texlang leaves unread
+    fil_tail: Option<usize>,
+}
+
+/// The characters a piece of source made of `l`, `L`, blanks and `\s ` is typeset as.
+fn typeset_tail(src: &str) -> String {
+    let mut out = String::new();
+    let mut rest = src;
+    while let Some(c) = rest.chars().next() {
+        if let Some(r) = rest.strip_prefix("\\s") {
+            out.push(' ');
+            rest = r.trim_start_matches(' ');
+        } else if c == ' ' {
+            out.push(' ');
+            rest = rest.trim_start_matches(' ');
+        } else {
+            out.push(c);
+            rest = &rest[c.len_utf8()..];
+        }
+    }
+    out
 }
 
 fn digits_of(s: &str, radix: u32) -> Vec<u8> {
@@ -196,27 +429,85 @@ impl Model {
         (i as usize) % NREG
     }
 
-    fn scan_int_unsigned(&mut self, src: &IntSrc) -> (i64, u32) {
+    /// a keyword with a per-letter upper-case mask
+    fn kw(&mut self, word: &str, mask: u8) {
+        let mut any = false;
+        for (i, c) in word.chars().enumerate() {
+            if mask & (1 << i) != 0 {
+                self.text.push(c.to_ascii_uppercase());
+                any = true;
+            } else {
+                self.text.push(c);
+            }
+        }
+        if any {
+            self.classes.push("upper-case letter in plus/minus/by/true/fil");
+            if self.upper_other_on {
+                self.classes.push("keyword letter of category 12");
+            }
+        }
+    }
+
+    fn blanks(&mut self, b: Blanks, class: &'static str) {
+        let n = b.count();
+        for k in 0..n {
+            if k == 0 && b.0 & 1 == 1 {
+                self.text.push(' ');
+            } else {
+                self.text.push_str("\\s ");
+            }
+        }
+        if n > 0 {
+            self.classes.push(class);
+        }
+    }
+
+    fn count_name(&self, i: usize) -> String {
+        if i == 2 && self.style.alias {
+            "\\cc".to_string()
+        } else {
+            format!("\\count{}", i + 1)
+        }
+    }
+
+    fn internal(&mut self, k: u8) -> i64 {
+        let (t, v) = INTERNALS[(k as usize) % INTERNALS.len()];
+        self.text.push_str(t);
+        self.classes.push("internal integer (chardef/mathchardef/countdef/catcode/mathcode)");
+        v.unwrap_or(self.regs.count[2])
+    }
+
+    fn scan_int_unsigned(&mut self, src: &IntSrc) -> i64 {
         match src {
             IntSrc::Dec(d) => {
                 self.text.push_str(d);
                 let (v, big) = ta::scan_digits(&digits_of(d, 10), 10);
                 if big {
                     self.classes.push("int too big");
+                    self.errs.push(ErrKind::TooBig);
                 }
-                (v, big as u32)
+                v
             }
             IntSrc::Oct(d) => {
                 self.text.push('\'');
                 self.text.push_str(d);
                 let (v, big) = ta::scan_digits(&digits_of(d, 8), 8);
-                (v, big as u32)
+                if big {
+                    self.errs.push(ErrKind::TooBig);
+                }
+                v
             }
             IntSrc::Hex(d) => {
                 self.text.push('"');
                 self.text.push_str(d);
+                if self.upper_other_on && d.bytes().any(|b| b.is_ascii_uppercase()) {
+                    self.classes.push("hex digit A-F of category 12");
+                }
                 let (v, big) = ta::scan_digits(&digits_of(d, 16), 16);
-                (v, big as u32)
+                if big {
+                    self.errs.push(ErrKind::TooBig);
+                }
+                v
             }
             IntSrc::Alpha(k) => {
                 let (t, v) = match k % 7 {
@@ -231,73 +522,101 @@ impl Model {
                 };
                 self.text.push_str(t);
                 self.classes.push("alpha constant");
-                (v, 0)
+                v
             }
             IntSrc::Count(j) => {
                 self.text.push_str(&format!("\\count{}", Self::r(*j) + 1));
-                (self.regs.count[Self::r(*j)], 0)
+                self.regs.count[Self::r(*j)]
             }
             IntSrc::Dimen(j) => {
                 self.text.push_str(&format!("\\dimen{}", Self::r(*j) + 1));
                 self.classes.push("coercion");
-                (self.regs.dimen[Self::r(*j)], 0)
+                self.regs.dimen[Self::r(*j)]
             }
             IntSrc::Skip(j) => {
                 self.text.push_str(&format!("\\skip{}", Self::r(*j) + 1));
                 self.classes.push("coercion");
-                (self.regs.skip[Self::r(*j)].width, 0)
+                self.regs.skip[Self::r(*j)].width
             }
+            IntSrc::Internal(k) => self.internal(*k),
         }
     }
 
     /// §440 scan_int
-    fn scan_int(&mut self, signs: &Signs, src: &IntSrc) -> Scanned {
+    fn scan_int(&mut self, signs: &Signs, src: &IntSrc) -> i64 {
         signs.render(&mut self.text);
-        let (v, e) = self.scan_int_unsigned(src);
+        let v = self.scan_int_unsigned(src);
         self.text.push_str("\\relax ");
-        let v = if signs.negative() { ta::wrap32(-v) } else { v };
-        Scanned { value: v, errors: e }
+        if signs.negative() {
+            ta::wrap32(-v)
+        } else {
+            v
+        }
+    }
+
+    fn unit_letters(&mut self, unit: Unit, mask: u8, split: bool) {
+        for (i, c) in unit.keyword().chars().enumerate() {
+            if split && i == 1 {
+                self.text.push(' ');
+            }
+            if mask & (1 << i) != 0 {
+                self.text.push(c.to_ascii_uppercase());
+                if self.upper_other_on {
+                    self.classes.push("keyword letter of category 12");
+                }
+            } else {
+                self.text.push(c);
+            }
+        }
     }
 
     fn render_unit(&mut self, u: &UnitSpec) -> UnitKind {
+        let pre = self.style.pre_unit;
         match u {
             UnitSpec::Unit(unit, mask, true_kw, spaces) => {
                 for _ in 0..(*spaces % 3) {
                     self.text.push(' ');
                 }
+                self.blanks(pre, "blank tokens before a unit");
                 let is_font_unit = matches!(unit, Unit::Em | Unit::Ex);
                 if *true_kw && !is_font_unit {
-                    self.text.push_str("true");
+                    let m = self.style.true_mask;
+                    self.kw("true", m);
                     self.classes.push("true keyword");
+                    let b = self.style.post_true;
+                    self.blanks(b, "blank between true and unit");
                 }
-                for (i, c) in unit.keyword().chars().enumerate() {
-                    if mask & (1 << i) != 0 {
-                        self.text.push(c.to_ascii_uppercase());
-                    } else {
-                        self.text.push(c);
-                    }
-                }
+                self.unit_letters(*unit, *mask, false);
                 UnitKind::Unit(*unit)
             }
             UnitSpec::Dimen(j) => {
+                self.blanks(pre, "blank tokens before an internal unit");
                 self.text.push_str(&format!("\\dimen{}", Self::r(*j) + 1));
                 self.classes.push("internal unit");
                 UnitKind::Internal(self.regs.dimen[Self::r(*j)])
             }
             UnitSpec::Skip(j) => {
+                self.blanks(pre, "blank tokens before an internal unit");
                 self.text.push_str(&format!("\\skip{}", Self::r(*j) + 1));
                 self.classes.push("internal unit");
                 UnitKind::Internal(self.regs.skip[Self::r(*j)].width)
             }
             UnitSpec::Count(j) => {
+                self.blanks(pre, "blank tokens before an internal unit");
                 self.text.push_str(&format!("\\count{}", Self::r(*j) + 1));
                 self.classes.push("internal unit");
                 UnitKind::Internal(self.regs.count[Self::r(*j)])
             }
+            UnitSpec::Internal(k) => {
+                self.blanks(pre, "blank tokens before an internal unit");
+                let v = self.internal(*k);
+                self.classes.push("internal unit");
+                UnitKind::Internal(v)
+            }
         }
     }
 
-    fn finish(&mut self, parts: ta::DimenParts, unit: UnitKind) -> Scanned {
+    fn finish(&mut self, parts: ta::DimenParts, unit: UnitKind) -> i64 {
         let mut s = ta::finish_dimen(&parts, unit, EM, EX);
         if self.dev.overflow_clamp_follows_unit_sign && s.errors > parts.int_too_big as u32 {
             if let UnitKind::Internal(v) = unit {
@@ -306,19 +625,42 @@ impl Model {
                 }
             }
         }
+        if parts.int_too_big {
+            self.errs.push(ErrKind::TooBig);
+        }
+        if s.errors > parts.int_too_big as u32 {
+            self.errs.push(ErrKind::DimTooLarge);
+        }
         if s.errors > 0 {
             self.classes.push("dimension error/clamp");
         }
-        s
+        if let UnitKind::Unit(u @ (Unit::Em | Unit::Ex)) = unit {
+            self.classes.push(if u == Unit::Em { "unit em" } else { "unit ex" });
+        }
+        s.value
     }
 
-    /// §448 scan_dimen (signs already rendered by the caller through `signs`)
-    fn scan_dimen(&mut self, signs: &Signs, src: &DimSrc) -> Scanned {
+    /// "Illegal unit of measure (pt inserted)" §459: the number is taken in points and what
+    /// follows stays in the input, i.e. is typeset.
+    fn illegal_unit(&mut self, parts: ta::DimenParts, leftover: &str) -> i64 {
+        self.errs.push(ErrKind::Other);
+        self.expected.push_str(leftover);
+        self.finish(parts, UnitKind::Unit(Unit::Pt))
+    }
+
+    /// §448 scan_dimen. `plain`: the dimension is the whole right-hand side of \dimenN= or
+    /// \advance\dimenN (what TeX leaves unread is typeset before the following \relax).
+    fn scan_dimen(&mut self, signs: &Signs, src: &DimSrc, plain: bool) -> i64 {
         signs.render(&mut self.text);
         let mut negative = signs.negative();
         let r = match src {
-            DimSrc::Const { int, frac, unit } => {
+            DimSrc::Const { int, frac, unit, quirk } => {
                 let (int, frac) = if int.is_none() && frac.is_none() { (Some("0".to_string()), None) } else { (int.clone(), frac.clone()) };
+                let keyword_unit = match unit {
+                    UnitSpec::Unit(u, m, t, _) => Some((*u, *m, *t && !matches!(u, Unit::Em | Unit::Ex))),
+                    _ => None,
+                };
+                let quirk = if plain && keyword_unit.is_some() { *quirk % 3 } else { 0 };
                 let (iv, big) = match &int {
                     Some(d) => {
                         self.text.push_str(d);
@@ -326,29 +668,73 @@ impl Model {
                     }
                     None => (0, false),
                 };
-                let fd = match &frac {
-                    Some((comma, d)) => {
-                        self.text.push(if *comma { ',' } else { '.' });
-                        self.text.push_str(d);
-                        if d.len() >= 3 {
-                            self.classes.push("fraction>=3 digits");
-                        }
-                        digits_of(d, 10)
+                if quirk == 1 && int.is_some() && frac.is_some() {
+                    // `1 .5pt`: scan_int takes the blank (§444), cur_tok is then not the point, no
+                    // fraction is scanned (§448) and `.5pt` is no unit (§459).
+                    let (u, m, t) = keyword_unit.unwrap();
+                    let (comma, d) = frac.clone().unwrap();
+                    let start = self.text.len() + 1;
+                    self.text.push(' ');
+                    self.text.push(if comma { ',' } else { '.' });
+                    self.text.push_str(&d);
+                    if t {
+                        self.text.push_str("true");
                     }
-                    None => vec![],
-                };
-                let uk = self.render_unit(unit);
-                self.finish(ta::DimenParts { negative, int_value: iv, int_too_big: big, frac_digits: fd }, uk)
+                    self.unit_letters(u, m, false);
+                    let leftover = self.text[start..].to_string();
+                    self.classes.push("blank before the decimal point (no fraction, illegal unit)");
+                    self.illegal_unit(ta::DimenParts { negative, int_value: iv, int_too_big: big, frac_digits: vec![] }, &leftover)
+                } else {
+                    let fd = match &frac {
+                        Some((comma, d)) => {
+                            self.text.push(if *comma { ',' } else { '.' });
+                            self.text.push_str(d);
+                            if d.len() >= 3 {
+                                self.classes.push("fraction>=3 digits");
+                            }
+                            digits_of(d, 10)
+                        }
+                        None => vec![],
+                    };
+                    let parts = ta::DimenParts { negative, int_value: iv, int_too_big: big, frac_digits: fd };
+                    if quirk == 2 {
+                        // `1p t`: scan_keyword fails at the blank and restores `p` (§407)
+                        let (u, m, _) = keyword_unit.unwrap();
+                        let start = self.text.len();
+                        self.unit_letters(u, m, true);
+                        let leftover = self.text[start..].to_string();
+                        self.classes.push("blank inside a unit keyword (illegal unit)");
+                        self.illegal_unit(parts, &leftover)
+                    } else {
+                        let uk = self.render_unit(unit);
+                        self.finish(parts, uk)
+                    }
+                }
             }
-            DimSrc::Radix { hex, digits, unit } => {
+            DimSrc::Radix { hex, digits, unit, frac } => {
                 self.text.push(if *hex { '"' } else { '\'' });
                 self.text.push_str(digits);
                 let radix = if *hex { 16 } else { 8 };
                 let (iv, big) = ta::scan_digits(&digits_of(digits, radix as u32), radix);
-                // a following space is needed so that e.g. "1Fdd is not read as hex digits FDD
-                self.text.push(' ');
-                let uk = self.render_unit(unit);
-                self.finish(ta::DimenParts { negative, int_value: iv, int_too_big: big, frac_digits: vec![] }, uk)
+                let parts = ta::DimenParts { negative, int_value: iv, int_too_big: big, frac_digits: vec![] };
+                match (frac, unit) {
+                    (Some(f), UnitSpec::Unit(u, m, _, _)) if plain => {
+                        // `"10.5pt`: no fraction after a non-decimal constant (§448), `.5pt` is no unit
+                        let start = self.text.len();
+                        self.text.push('.');
+                        self.text.push_str(f);
+                        self.unit_letters(*u, *m, false);
+                        let leftover = self.text[start..].to_string();
+                        self.classes.push("point after an octal/hex constant (illegal unit)");
+                        self.illegal_unit(parts, &leftover)
+                    }
+                    _ => {
+                        // a following space is needed so that e.g. "1Fdd is not read as hex digits FDD
+                        self.text.push(' ');
+                        let uk = self.render_unit(unit);
+                        self.finish(parts, uk)
+                    }
+                }
             }
             DimSrc::Dimen(j) => {
                 self.text.push_str(&format!("\\dimen{}", Self::r(*j) + 1));
@@ -361,10 +747,16 @@ impl Model {
                 let v = self.regs.skip[Self::r(*j)].width;
                 self.attach_sign(v, negative)
             }
-            DimSrc::CountUnits(j, unit) => {
-                self.text.push_str(&format!("\\count{}", Self::r(*j) + 1));
+            DimSrc::CountUnits(..) | DimSrc::InternalUnits(..) => {
+                let (mut v, unit) = match src {
+                    DimSrc::CountUnits(j, unit) => {
+                        self.text.push_str(&format!("\\count{}", Self::r(*j) + 1));
+                        (self.regs.count[Self::r(*j)], unit)
+                    }
+                    DimSrc::InternalUnits(k, unit) => (self.internal(*k), unit),
+                    _ => unreachable!(),
+                };
                 self.classes.push("coercion");
-                let mut v = self.regs.count[Self::r(*j)];
                 if v < 0 {
                     negative = !negative;
                     if v == i32::MIN as i64 {
@@ -372,7 +764,7 @@ impl Model {
                     }
                     v = -v;
                 }
-                // the register number is terminated by a space when a keyword follows
+                // the register number / control word is terminated by a space when a keyword follows
                 self.text.push(' ');
                 let uk = self.render_unit(unit);
                 self.finish(ta::DimenParts { negative, int_value: v, int_too_big: false, frac_digits: vec![] }, uk)
@@ -383,83 +775,137 @@ impl Model {
     }
 
     /// attach_sign for an internal dimension used directly (§448: goto attach_sign)
-    fn attach_sign(&mut self, v: i64, negative: bool) -> Scanned {
+    fn attach_sign(&mut self, v: i64, negative: bool) -> i64 {
         let mut cur_val = v;
-        let mut errors = 0;
         if cur_val.abs() >= 0o10000000000 {
-            errors = 1;
+            self.errs.push(ErrKind::DimTooLarge);
             cur_val = ta::MAX_DIMEN;
             self.classes.push("dimension error/clamp");
         }
         if negative {
             cur_val = -cur_val;
         }
-        Scanned { value: cur_val, errors }
+        cur_val
     }
 
-    fn scan_stretch(&mut self, s: &StretchSrc) -> (Scanned, u8) {
+    /// `last`: nothing but `\relax` follows this part of the glue specification
+    fn scan_stretch(&mut self, s: &StretchSrc, last: bool) -> (i64, u8) {
         match s {
             StretchSrc::Dim(signs, d) => (self.scan_dimen_inner(signs, d), 0),
-            StretchSrc::Fil { signs, int, frac, ls } => {
+            StretchSrc::Fil { signs, int, frac, ls, coeff } => {
                 signs.render(&mut self.text);
-                let (int, frac) = if int.is_none() && frac.is_none() { (Some("1".to_string()), None) } else { (int.clone(), frac.clone()) };
-                let (iv, big) = match &int {
-                    Some(d) => {
-                        self.text.push_str(d);
-                        ta::scan_digits(&digits_of(d, 10), 10)
+                let mut negative = signs.negative();
+                let parts = match coeff {
+                    None => {
+                        let (int, frac) = if int.is_none() && frac.is_none() { (Some("1".to_string()), None) } else { (int.clone(), frac.clone()) };
+                        let (iv, big) = match &int {
+                            Some(d) => {
+                                self.text.push_str(d);
+                                ta::scan_digits(&digits_of(d, 10), 10)
+                            }
+                            None => (0, false),
+                        };
+                        let fd = match &frac {
+                            Some((comma, d)) => {
+                                self.text.push(if *comma { ',' } else { '.' });
+                                self.text.push_str(d);
+                                digits_of(d, 10)
+                            }
+                            None => vec![],
+                        };
+                        ta::DimenParts { negative, int_value: iv, int_too_big: big, frac_digits: fd }
                     }
-                    None => (0, false),
-                };
-                let fd = match &frac {
-                    Some((comma, d)) => {
-                        self.text.push(if *comma { ',' } else { '.' });
-                        self.text.push_str(d);
-                        digits_of(d, 10)
+                    Some(c) => {
+                        self.classes.push("fil after an internal/octal/hex coefficient");
+                        let (mut v, big) = match c {
+                            FilCoeff::Count(j) => {
+                                self.text.push_str(&format!("\\count{}", Self::r(*j) + 1));
+                                (self.regs.count[Self::r(*j)], false)
+                            }
+                            FilCoeff::Internal(k) => (self.internal(*k), false),
+                            FilCoeff::Oct(d) => {
+                                self.text.push('\'');
+                                self.text.push_str(d);
+                                ta::scan_digits(&digits_of(d, 8), 8)
+                            }
+                            FilCoeff::Hex(d) => {
+                                self.text.push('"');
+                                self.text.push_str(d);
+                                ta::scan_digits(&digits_of(d, 16), 16)
+                            }
+                        };
+                        if v < 0 {
+                            negative = !negative;
+                            if v == i32::MIN as i64 {
+                                self.undefined = true;
+                            }
+                            v = -v;
+                        }
+                        self.text.push(' ');
+                        ta::DimenParts { negative, int_value: v, int_too_big: big, frac_digits: vec![] }
                     }
-                    None => vec![],
                 };
                 let ls = (*ls % 4) + 1; // 1..=4
-                self.text.push_str("fi");
-                for _ in 0..ls {
-                    self.text.push('l');
+                let st = self.style.clone();
+                self.blanks(st.pre_fil, "blank tokens before fil");
+                self.kw("fil", st.fil_mask & 7);
+                // number of l's Texlang takes (listed deviation): those in front of the first blank
+                let mut taken = ls;
+                for k in 1..ls {
+                    // only in the last part of a specification: what the listed deviation
+                    // fil_l_blank_ends_unit leaves unread is then typeset, nothing else changes
+                    if last {
+                        let b = st.pre_l[(k - 1) as usize];
+                        if b.count() > 0 && taken == ls {
+                            taken = k;
+                            if self.dev.fil_l_blank_ends_unit {
+                                self.fil_tail = Some(self.text.len());
+                            }
+                        }
+                        self.blanks(b, "blank before an l of fil l l");
+                    }
+                    let upper = st.fil_mask & (1 << (2 + k)) != 0;
+                    self.text.push(if upper { 'L' } else { 'l' });
+                    if upper {
+                        self.classes.push("upper-case letter in plus/minus/by/true/fil");
+                    }
                 }
                 self.classes.push("infinite glue");
-                let mut sc = self.finish(ta::DimenParts { negative: signs.negative(), int_value: iv, int_too_big: big, frac_digits: fd }, UnitKind::Fil);
+                let v = self.finish(parts, UnitKind::Fil);
+                let ls = if self.dev.fil_l_blank_ends_unit { taken } else { ls };
                 let mut order = ls;
                 if ls == 4 {
                     // "Illegal unit of measure (replaced by filll)"
-                    sc.errors += 1;
+                    self.errs.push(ErrKind::Other);
                     order = 3;
                 }
-                (sc, order)
+                (v, order)
             }
         }
     }
 
     /// scan_dimen without the trailing \relax (inside glue specifications the keyword scan follows)
-    fn scan_dimen_inner(&mut self, signs: &Signs, d: &DimSrc) -> Scanned {
-        let before = self.text.len();
-        let r = self.scan_dimen(signs, d);
+    fn scan_dimen_inner(&mut self, signs: &Signs, d: &DimSrc) -> i64 {
+        let r = self.scan_dimen(signs, d, false);
         // remove the "\relax " that scan_dimen appended, keep a space as separator
         assert!(self.text.ends_with("\\relax "));
         let n = self.text.len();
         self.text.truncate(n - 7);
-        let _ = before;
         self.text.push(' ');
         r
     }
 
     /// §461 scan_glue
-    fn scan_glue(&mut self, signs: &Signs, src: &GlueSrc) -> (GlueVal, u32) {
+    fn scan_glue(&mut self, signs: &Signs, src: &GlueSrc) -> GlueVal {
         match src {
             GlueSrc::Skip(j) => {
                 signs.render(&mut self.text);
                 self.text.push_str(&format!("\\skip{}\\relax ", Self::r(*j) + 1));
                 let g = self.regs.skip[Self::r(*j)];
                 if signs.negative() {
-                    (GlueVal { width: ta::wrap32(-g.width), stretch: ta::wrap32(-g.stretch), shrink: ta::wrap32(-g.shrink), ..g }, 0)
+                    GlueVal { width: ta::wrap32(-g.width), stretch: ta::wrap32(-g.stretch), shrink: ta::wrap32(-g.shrink), ..g }
                 } else {
-                    (g, 0)
+                    g
                 }
             }
             GlueSrc::Parts { width: DimSrc::Skip(j), .. } => {
@@ -472,94 +918,204 @@ impl Model {
                     signs.render(&mut self.text);
                     self.text.push_str(&format!("\\dimen{} ", Self::r(*j) + 1));
                     let v = self.regs.dimen[Self::r(*j)];
-                    Scanned { value: if signs.negative() { ta::wrap32(-v) } else { v }, errors: 0 }
+                    if signs.negative() {
+                        ta::wrap32(-v)
+                    } else {
+                        v
+                    }
                 } else {
                     self.scan_dimen_inner(signs, width)
                 };
-                let mut g = GlueVal { width: w.value, ..GlueVal::ZERO };
-                let mut errors = w.errors;
+                let mut g = GlueVal { width: w, ..GlueVal::ZERO };
+                let st = self.style.clone();
                 if let Some(p) = plus {
-                    self.text.push_str("plus ");
-                    let (s, o) = self.scan_stretch(p);
+                    self.blanks(st.pre_plus, "blank tokens before plus/minus/by");
+                    self.kw("plus", st.plus_mask);
+                    self.text.push(' ');
+                    let (s, o) = self.scan_stretch(p, minus.is_none());
                     if !self.text.ends_with(' ') {
                         self.text.push(' ');
                     }
-                    g.stretch = s.value;
+                    g.stretch = s;
                     g.stretch_order = o;
-                    errors += s.errors;
                 }
                 if let Some(m) = minus {
-                    self.text.push_str("minus ");
-                    let (s, o) = self.scan_stretch(m);
+                    self.blanks(st.pre_minus, "blank tokens before plus/minus/by");
+                    self.kw("minus", st.minus_mask);
+                    self.text.push(' ');
+                    let (s, o) = self.scan_stretch(m, true);
                     if !self.text.ends_with(' ') {
                         self.text.push(' ');
                     }
-                    g.shrink = s.value;
+                    g.shrink = s;
                     g.shrink_order = o;
-                    errors += s.errors;
+                    if let Some(pos) = self.fil_tail.take() {
+                        // deviating model: one blank is the optional space of the dimension, the rest is typeset
+                        let t = typeset_tail(&self.text[pos..]);
+                        self.expected.push_str(t.strip_prefix(' ').unwrap_or(&t));
+                    }
+                } else {
+                    // scan_keyword("minus") drops every blank it meets, also when it fails (§407)
+                    self.blanks(st.post_glue, "blank tokens after a glue without minus (all eaten)");
+                    if let Some(pos) = self.fil_tail.take() {
+                        // deviating model: the blanks are dropped by the scan for `minus`, the rest is typeset
+                        let t = typeset_tail(&self.text[pos..]);
+                        self.expected.push_str(t.trim_start_matches(' '));
+                    }
                 }
                 self.text.push_str("\\relax ");
-                (g, errors)
+                g
             }
         }
     }
 
-    fn read(&mut self, kind: Kind, i: usize) {
+    fn reg_name(&self, kind: Kind, i: usize) -> String {
         match kind {
-            Kind::Count => {
-                self.text.push_str(&format!("\\the\\count{};", i + 1));
-                self.expected.push_str(&format!("{};", self.regs.count[i]));
-            }
-            Kind::Dimen => {
-                self.text.push_str(&format!("\\the\\dimen{};", i + 1));
-                self.expected.push_str(&format!("{}pt;", ta::print_scaled(self.regs.dimen[i])));
-            }
-            Kind::Skip => {
-                self.text.push_str(&format!("\\the\\skip{};", i + 1));
-                self.expected.push_str(&format!("{};", ta::print_spec(&self.regs.skip[i])));
-            }
+            Kind::Count => self.count_name(i),
+            _ => format!("\\{}{}", kind.name(), i + 1),
+        }
+    }
+
+    fn read(&mut self, kind: Kind, i: usize) {
+        let name = self.reg_name(kind, i);
+        self.text.push_str(&format!("\\the{};", name));
+        match kind {
+            Kind::Count => self.expected.push_str(&format!("{};", self.regs.count[i])),
+            Kind::Dimen => self.expected.push_str(&format!("{}pt;", ta::print_scaled(self.regs.dimen[i]))),
+            Kind::Skip => self.expected.push_str(&format!("{};", ta::print_spec(&self.regs.skip[i]))),
         }
     }
 
     fn by(&mut self, by: bool) {
         if by {
-            self.text.push_str("by ");
+            let st = self.style.clone();
+            self.blanks(st.pre_by, "blank tokens before plus/minus/by");
+            self.kw("by", st.by_mask);
+            self.text.push(' ');
         }
+    }
+
+    /// target of an assignment or arithmetic command; a control word needs no delimiter, a
+    /// register number is ended by `=` or a blank
+    fn target(&mut self, prefix: &str, kind: Kind, i: usize, assign: bool) {
+        let name = self.reg_name(kind, i);
+        if kind == Kind::Count && i == 2 && self.style.alias {
+            self.classes.push("countdef alias as target");
+        }
+        self.text.push_str(prefix);
+        self.text.push_str(&name);
+        self.text.push(if assign { '=' } else { ' ' });
+    }
+
+    fn flush(&mut self) {
+        let mut text = std::mem::take(&mut self.text);
+        text.push('%');
+        self.segs.push(Seg { text, expected: std::mem::take(&mut self.expected), errs: std::mem::take(&mut self.errs), undefined: self.undefined });
     }
 
     fn op(&mut self, op: &Op) {
         match op {
+            Op::Style(st) => {
+                if st.upper_other != self.upper_other_on {
+                    let cat = if st.upper_other { 12 } else { 11 };
+                    for c in 'A'..='Z' {
+                        self.text.push_str(&format!("\\catcode`{}={} ", c, cat));
+                    }
+                    self.upper_other_on = st.upper_other;
+                }
+                self.style = st.clone();
+                // no output of its own: stays in front of the next operation's segment
+                return;
+            }
+            Op::ReadInternal(k) => {
+                self.text.push_str("\\the");
+                let v = self.internal(*k);
+                self.text.push(';');
+                self.expected.push_str(&format!("{};", v));
+                self.classes.push("\\the of a non-register internal integer");
+            }
+            Op::Copy(kind, i, j) => {
+                let (i, j) = (Self::r(*i), Self::r(*j));
+                self.target("", *kind, j, true);
+                let src = self.reg_name(*kind, i);
+                self.text.push_str(&format!("\\the{}\\relax ", src));
+                match kind {
+                    Kind::Count => {
+                        let (v, big) = ta::rescan_printed_int(self.regs.count[i]);
+                        if big {
+                            self.errs.push(ErrKind::TooBig);
+                            self.classes.push("rescan: printed value beyond the limits");
+                        }
+                        self.regs.count[j] = v;
+                        self.classes.push("print-then-rescan count");
+                    }
+                    Kind::Dimen => {
+                        let s = ta::rescan_printed_dimen(self.regs.dimen[i], false);
+                        if s.errors > 0 {
+                            self.errs.push(ErrKind::DimTooLarge);
+                            self.classes.push("rescan: printed value beyond the limits");
+                        }
+                        self.regs.dimen[j] = s.value;
+                        self.classes.push("print-then-rescan dimen");
+                    }
+                    Kind::Skip => {
+                        let g = self.regs.skip[i];
+                        let mut out = GlueVal::ZERO;
+                        let w = ta::rescan_printed_dimen(g.width, false);
+                        out.width = w.value;
+                        let mut errors = w.errors;
+                        // print_spec (§178) omits zero components, so their order is not printed either
+                        if g.stretch != 0 {
+                            let s = ta::rescan_printed_dimen(g.stretch, g.stretch_order > 0);
+                            out.stretch = s.value;
+                            out.stretch_order = g.stretch_order;
+                            errors += s.errors;
+                        }
+                        if g.shrink != 0 {
+                            let s = ta::rescan_printed_dimen(g.shrink, g.shrink_order > 0);
+                            out.shrink = s.value;
+                            out.shrink_order = g.shrink_order;
+                            errors += s.errors;
+                        }
+                        for _ in 0..errors {
+                            self.errs.push(ErrKind::DimTooLarge);
+                        }
+                        if errors > 0 {
+                            self.classes.push("rescan: printed value beyond the limits");
+                        }
+                        if g.stretch_order > 0 && g.stretch != 0 || g.shrink_order > 0 && g.shrink != 0 {
+                            self.classes.push("print-then-rescan glue with fil");
+                        }
+                        self.regs.skip[j] = out;
+                        self.classes.push("print-then-rescan skip");
+                    }
+                }
+                self.read(*kind, j);
+            }
             Op::SetCount(i, signs, src) => {
                 let i = Self::r(*i);
-                self.text.push_str(&format!("\\count{}=", i + 1));
-                let s = self.scan_int(signs, src);
-                self.errors += s.errors;
-                self.regs.count[i] = s.value;
+                self.target("", Kind::Count, i, true);
+                self.regs.count[i] = self.scan_int(signs, src);
                 self.read(Kind::Count, i);
             }
             Op::SetDimen(i, signs, src) => {
                 let i = Self::r(*i);
                 self.text.push_str(&format!("\\dimen{}=", i + 1));
-                let s = self.scan_dimen(signs, src);
-                self.errors += s.errors;
-                self.regs.dimen[i] = s.value;
+                self.regs.dimen[i] = self.scan_dimen(signs, src, true);
                 self.read(Kind::Dimen, i);
             }
             Op::SetSkip(i, signs, src) => {
                 let i = Self::r(*i);
                 self.text.push_str(&format!("\\skip{}=", i + 1));
-                let (g, e) = self.scan_glue(signs, src);
-                self.errors += e;
-                self.regs.skip[i] = g;
+                self.regs.skip[i] = self.scan_glue(signs, src);
                 self.read(Kind::Skip, i);
             }
             Op::AdvCount(i, by, signs, src) => {
                 let i = Self::r(*i);
-                self.text.push_str(&format!("\\advance\\count{} ", i + 1));
+                self.target("\\advance", Kind::Count, i, false);
                 self.by(*by);
-                let s = self.scan_int(signs, src);
-                self.errors += s.errors;
-                let sum = self.regs.count[i] + s.value;
+                let v = self.scan_int(signs, src);
+                let sum = self.regs.count[i] + v;
                 if sum != ta::wrap32(sum) {
                     self.classes.push("advance wraps");
                 }
@@ -570,9 +1126,8 @@ impl Model {
                 let i = Self::r(*i);
                 self.text.push_str(&format!("\\advance\\dimen{} ", i + 1));
                 self.by(*by);
-                let s = self.scan_dimen(signs, src);
-                self.errors += s.errors;
-                let sum = self.regs.dimen[i] + s.value;
+                let v = self.scan_dimen(signs, src, true);
+                let sum = self.regs.dimen[i] + v;
                 if sum != ta::wrap32(sum) {
                     self.classes.push("advance wraps");
                 }
@@ -583,24 +1138,21 @@ impl Model {
                 let i = Self::r(*i);
                 self.text.push_str(&format!("\\advance\\skip{} ", i + 1));
                 self.by(*by);
-                let (g, e) = self.scan_glue(signs, src);
-                self.errors += e;
+                let g = self.scan_glue(signs, src);
                 let old = self.regs.skip[i];
-                self.regs.skip[i] = if self.dev.glue_sum_ignores_zero { dev_glue_sum(&g, &old) } else { ta::glue_sum(&g, &old) };
+                let new = if self.dev.glue_sum_ignores_zero { dev_glue_sum(&g, &old) } else { ta::glue_sum(&g, &old) };
+                let wraps = |a: i64, b: i64, r: i64| a + b != ta::wrap32(a + b) && r == ta::wrap32(a + b);
+                if wraps(g.width, old.width, new.width) || wraps(g.stretch, old.stretch, new.stretch) || wraps(g.shrink, old.shrink, new.shrink) {
+                    self.classes.push("advance wraps");
+                }
+                self.regs.skip[i] = new;
                 self.read(Kind::Skip, i);
             }
             Op::Mul(kind, i, by, signs, src) => {
                 let i = Self::r(*i);
-                let name = match kind {
-                    Kind::Count => "count",
-                    Kind::Dimen => "dimen",
-                    Kind::Skip => "skip",
-                };
-                self.text.push_str(&format!("\\multiply\\{}{} ", name, i + 1));
+                self.target("\\multiply", *kind, i, false);
                 self.by(*by);
-                let s = self.scan_int(signs, src);
-                self.errors += s.errors;
-                let n = s.value;
+                let n = self.scan_int(signs, src);
                 let min = i32::MIN as i64;
                 match kind {
                     Kind::Count => {
@@ -614,7 +1166,7 @@ impl Model {
                                 if self.dev.multiply_accepts_min && (x as i128 * n as i128) == min as i128 {
                                     self.regs.count[i] = min;
                                 } else {
-                                    self.errors += 1;
+                                    self.errs.push(ErrKind::Overflow);
                                     self.classes.push("arithmetic overflow");
                                 }
                             }
@@ -628,7 +1180,7 @@ impl Model {
                         match ta::nx_plus_y(x, n, 0) {
                             Some(v) => self.regs.dimen[i] = v,
                             None => {
-                                self.errors += 1;
+                                self.errs.push(ErrKind::Overflow);
                                 self.classes.push("arithmetic overflow");
                             }
                         }
@@ -644,8 +1196,11 @@ impl Model {
                         match (w, st, sh) {
                             (Some(w), Some(st), Some(sh)) => self.regs.skip[i] = GlueVal { width: w, stretch: st, shrink: sh, ..g },
                             _ => {
-                                self.errors += 1;
+                                self.errs.push(ErrKind::Overflow);
                                 self.classes.push("arithmetic overflow");
+                                if [w, st, sh].iter().any(|c| c.is_some_and(|v| v != 0)) {
+                                    self.classes.push("glue overflow in one component only (nothing may change)");
+                                }
                             }
                         }
                     }
@@ -654,48 +1209,53 @@ impl Model {
             }
             Op::Div(kind, i, by, signs, src) => {
                 let i = Self::r(*i);
-                let name = match kind {
-                    Kind::Count => "count",
-                    Kind::Dimen => "dimen",
-                    Kind::Skip => "skip",
-                };
-                self.text.push_str(&format!("\\divide\\{}{} ", name, i + 1));
+                self.target("\\divide", *kind, i, false);
                 self.by(*by);
-                let s = self.scan_int(signs, src);
-                self.errors += s.errors;
-                let n = s.value;
+                let n = self.scan_int(signs, src);
                 let min = i32::MIN as i64;
                 if n == 0 {
-                    self.errors += 1;
+                    self.errs.push(ErrKind::DivZero);
                     self.classes.push("division by zero");
                 } else {
+                    let mut inexact = false;
+                    let mut div = |x: i64| {
+                        let (q, r) = ta::x_over_n(x, n).unwrap();
+                        if r != 0 && ((x < 0) != (n < 0)) {
+                            inexact = true;
+                        }
+                        q
+                    };
                     match kind {
                         Kind::Count => {
                             let x = self.regs.count[i];
                             if n == min || x == min {
                                 self.undefined = true;
                             }
-                            self.regs.count[i] = ta::x_over_n(x, n).unwrap().0;
+                            self.regs.count[i] = div(x);
                         }
                         Kind::Dimen => {
                             let x = self.regs.dimen[i];
                             if n == min || x == min {
                                 self.undefined = true;
                             }
-                            self.regs.dimen[i] = ta::x_over_n(x, n).unwrap().0;
+                            self.regs.dimen[i] = div(x);
                         }
                         Kind::Skip => {
                             let g = self.regs.skip[i];
                             if n == min || g.width == min || g.stretch == min || g.shrink == min {
                                 self.undefined = true;
                             }
-                            self.regs.skip[i] = GlueVal { width: ta::x_over_n(g.width, n).unwrap().0, stretch: ta::x_over_n(g.stretch, n).unwrap().0, shrink: ta::x_over_n(g.shrink, n).unwrap().0, ..g };
+                            self.regs.skip[i] = GlueVal { width: div(g.width), stretch: div(g.stretch), shrink: div(g.shrink), ..g };
                         }
+                    }
+                    if inexact {
+                        self.classes.push("inexact division with negative quotient (truncation toward zero)");
                     }
                 }
                 self.read(*kind, i);
             }
         }
+        self.flush();
     }
 }
 
@@ -717,22 +1277,32 @@ fn dev_glue_sum(inc: &GlueVal, old: &GlueVal) -> GlueVal {
 }
 
 pub struct Built {
-    pub text: String,
-    pub expected: String,
-    pub errors: u32,
+    /// one segment per operation; the first one starts with the preamble
+    pub segs: Vec<Seg>,
     pub undefined: bool,
     pub classes: Vec<&'static str>,
+}
+
+impl Built {
+    /// the program as a file: one line per operation (every line ends with `%`)
+    pub fn text(&self) -> String {
+        self.segs.iter().map(|s| s.text.as_str()).collect::<Vec<_>>().join("\n")
+    }
 }
 
 pub fn build(ops: &[Op], dev: Deviations) -> Built {
     let mut m = Model {
         regs: Regs { count: [0; NREG], dimen: [0; NREG], skip: [GlueVal::ZERO; NREG] },
-        text: String::from("\\def\\b{c}"),
+        text: String::from(PREAMBLE),
         expected: String::new(),
-        errors: 0,
+        errs: vec![],
+        segs: vec![],
         dev,
         undefined: false,
         classes: vec![],
+        style: Style::default(),
+        upper_other_on: false,
+        fil_tail: None,
     };
     for op in ops {
         if m.undefined {
@@ -740,14 +1310,52 @@ pub fn build(ops: &[Op], dev: Deviations) -> Built {
         }
         m.op(op);
     }
-    m.text.push('%');
-    Built { text: m.text, expected: m.expected, errors: m.errors, undefined: m.undefined, classes: m.classes }
+    if !m.text.is_empty() {
+        m.flush();
+    }
+    Built { segs: m.segs, undefined: m.undefined, classes: m.classes }
 }
 
 // ---- strategies
 
+/// Weighted choice between strategies. Unlike `prop_oneof!` it does not prepare the arms in front
+/// of the chosen one for shrinking (a forked runner and RNG for each of them, at every level of
+/// nesting: that was most of the cost of generating a case); shrinking stays inside the chosen arm.
+struct Pick<T: std::fmt::Debug>(Vec<(u32, BoxedStrategy<T>)>);
+
+impl<T: std::fmt::Debug> std::fmt::Debug for Pick<T> {
+    fn fmt(&self, f: &mut std::fmt::Formatter<'_>) -> std::fmt::Result {
+        write!(f, "Pick({} arms)", self.0.len())
+    }
+}
+
+impl<T: std::fmt::Debug + 'static> Strategy for Pick<T> {
+    type Tree = Box<dyn proptest::strategy::ValueTree<Value = T>>;
+    type Value = T;
+    fn new_tree(&self, runner: &mut proptest::test_runner::TestRunner) -> proptest::strategy::NewTree<Self> {
+        let total: u32 = self.0.iter().map(|a| a.0).sum();
+        let mut r = runner.rng().next_u32() % total;
+        for (w, s) in &self.0 {
+            if r < *w {
+                return s.new_tree(runner);
+            }
+            r -= *w;
+        }
+        unreachable!()
+    }
+}
+
+macro_rules! pick {
+    ($($w:expr => $s:expr),+ $(,)?) => { Pick(vec![$(($w, $s.boxed())),+]) };
+}
+
+/// a regex strategy compiled once (a `&str` used as a strategy is re-parsed for every case)
+fn re(pattern: &str) -> proptest::string::RegexGeneratorStrategy<String> {
+    proptest::string::string_regex(pattern).unwrap()
+}
+
 fn signs_strategy() -> impl Strategy<Value = Signs> {
-    prop_oneof![
+    pick![
         5 => Just(Signs(vec![])),
         3 => Just(Signs(vec![(true, false)])),
         2 => proptest::collection::vec((any::<bool>(), proptest::bool::weighted(0.3)), 1..4).prop_map(Signs),
@@ -774,7 +1382,7 @@ fn edge_ints() -> Vec<i64> {
 
 fn int_value_strategy() -> impl Strategy<Value = i64> {
     let e = edge_ints();
-    prop_oneof![
+    pick![
         4 => proptest::sample::select(e),
         3 => 0i64..70000,
         2 => 0i64..(1i64 << 33),
@@ -782,7 +1390,7 @@ fn int_value_strategy() -> impl Strategy<Value = i64> {
 }
 
 fn int_src_strategy() -> impl Strategy<Value = IntSrc> {
-    prop_oneof![
+    pick![
         6 => (int_value_strategy(), 0usize..3).prop_map(|(v, z)| IntSrc::Dec(format!("{}{}", "0".repeat(z), v))),
         1 => int_value_strategy().prop_map(|v| IntSrc::Oct(format!("{:o}", v))),
         1 => int_value_strategy().prop_map(|v| IntSrc::Hex(format!("{:X}", v))),
@@ -790,14 +1398,17 @@ fn int_src_strategy() -> impl Strategy<Value = IntSrc> {
         3 => (0u8..3).prop_map(IntSrc::Count),
         1 => (0u8..3).prop_map(IntSrc::Dimen),
         1 => (0u8..3).prop_map(IntSrc::Skip),
+        1 => (0u8..5).prop_map(IntSrc::Internal),
     ]
 }
 
+/// multipliers and divisors
 fn small_int_src_strategy() -> impl Strategy<Value = IntSrc> {
-    prop_oneof![
+    pick![
         5 => (0i64..12).prop_map(|v| IntSrc::Dec(format!("{}", v))),
-        3 => proptest::sample::select(vec![0i64, 1, 2, 3, 7, 1000, 16384, 32768, 65536, 65537, 1 << 30, 2147483647]).prop_map(|v| IntSrc::Dec(format!("{}", v))),
+        4 => proptest::sample::select(vec![0i64, 1, 2, 3, 7, 1000, 16383, 16384, 32767, 32768, 32769, 65535, 65536, 65537, (1 << 29) + 1, (1 << 30) - 1, 1 << 30, (1 << 30) + 1, 2147483646, 2147483647]).prop_map(|v| IntSrc::Dec(format!("{}", v))),
         2 => (0u8..3).prop_map(IntSrc::Count),
+        1 => (0u8..5).prop_map(IntSrc::Internal),
     ]
 }
 
@@ -806,27 +1417,40 @@ fn unit_strategy() -> impl Strategy<Value = Unit> {
 }
 
 fn unit_spec_strategy() -> impl Strategy<Value = UnitSpec> {
-    prop_oneof![
-        10 => (unit_strategy(), prop_oneof![4 => Just(0u8), 1 => 0u8..4], proptest::bool::weighted(0.1), prop_oneof![4 => Just(0u8), 1 => 0u8..3]).prop_map(|(u, m, t, s)| UnitSpec::Unit(u, m, t, s)),
-        2 => (0u8..3).prop_map(UnitSpec::Dimen),
-        1 => (0u8..3).prop_map(UnitSpec::Skip),
-        1 => (0u8..3).prop_map(UnitSpec::Count),
+    pick![
+        20 => (unit_strategy(), pick![4 => Just(0u8), 1 => 0u8..4], proptest::bool::weighted(0.15), pick![4 => Just(0u8), 1 => 0u8..3]).prop_map(|(u, m, t, s)| UnitSpec::Unit(u, m, t, s)),
+        4 => (0u8..3).prop_map(UnitSpec::Dimen),
+        2 => (0u8..3).prop_map(UnitSpec::Skip),
+        2 => (0u8..3).prop_map(UnitSpec::Count),
+        1 => (0u8..5).prop_map(UnitSpec::Internal),
     ]
 }
+
+/// 5^17: the 17-digit fractions (2m+1)*5^17 are the exact midpoints between two sp values
+const FIVE_17: u64 = 762_939_453_125;
 
 fn frac_strategy() -> impl Strategy<Value = (bool, String)> {
     (
         proptest::bool::weighted(0.2),
-        prop_oneof![
-            3 => "[0-9]{0,5}",
-            2 => "[0-9]{6,20}",
-            1 => proptest::sample::select(vec!["5", "50", "49999", "99999", "999999", "00001", "000007", "0000076", "00000762939453125", "000007629394531249", "99998", "999985", "9999923706"]).prop_map(|s| s.to_string()),
+        pick![
+            6 => re("[0-9]{0,5}"),
+            4 => re("[0-9]{6,20}"),
+            2 => proptest::sample::select(vec!["5", "50", "49999", "99999", "999999", "00001", "000007", "0000076", "00000762939453125", "000007629394531249", "99998", "999985", "9999923706"]).prop_map(|s| s.to_string()),
+            // exact 17-digit ties, their lower neighbours (…4999) and upper neighbours (…0001)
+            1 => (0u64..65536, 0u8..3, re("[0-9]{0,3}")).prop_map(|(m, k, tail)| {
+                let tie = (2 * m + 1) * FIVE_17;
+                match k {
+                    0 => format!("{:017}{}", tie, tail),
+                    1 => format!("{:017}9{}", tie - 1, tail),
+                    _ => format!("{:017}", tie + 1),
+                }
+            }),
         ],
     )
 }
 
 fn dim_int_strategy() -> impl Strategy<Value = String> {
-    prop_oneof![
+    pick![
         4 => (0i64..40).prop_map(|v| format!("{}", v)),
         3 => proptest::sample::select(vec![0i64, 1, 226, 227, 1000, 1363, 1364, 5758, 5759, 15000, 16383, 16384, 16385, 32767, 32768, 65535, 65536, 131071, 1 << 20, 1073741823, 1073741824, 2147483647, 2147483648, 99999999999]).prop_map(|v| format!("{}", v)),
         2 => (0i64..20000).prop_map(|v| format!("{}", v)),
@@ -834,36 +1458,90 @@ fn dim_int_strategy() -> impl Strategy<Value = String> {
 }
 
 fn dim_src_strategy() -> impl Strategy<Value = DimSrc> {
-    prop_oneof![
-        10 => (proptest::option::weighted(0.85, dim_int_strategy()), proptest::option::weighted(0.6, frac_strategy()), unit_spec_strategy()).prop_map(|(int, frac, unit)| DimSrc::Const { int, frac, unit }),
-        1 => (any::<bool>(), 0i64..70000, unit_spec_strategy()).prop_map(|(hex, v, unit)| DimSrc::Radix { hex, digits: if hex { format!("{:X}", v) } else { format!("{:o}", v) }, unit }),
-        2 => (0u8..3).prop_map(DimSrc::Dimen),
-        1 => (0u8..3).prop_map(DimSrc::Skip),
-        2 => ((0u8..3), unit_spec_strategy()).prop_map(|(j, u)| DimSrc::CountUnits(j, u)),
+    pick![
+        20 => (proptest::option::weighted(0.85, dim_int_strategy()), proptest::option::weighted(0.6, frac_strategy()), unit_spec_strategy(), pick![12 => Just(0u8), 1 => Just(1u8), 1 => Just(2u8)])
+            .prop_map(|(int, frac, unit, quirk)| DimSrc::Const { int, frac, unit, quirk }),
+        2 => (any::<bool>(), 0i64..70000, unit_spec_strategy(), proptest::option::weighted(0.15, re("[0-9]{1,3}")))
+            .prop_map(|(hex, v, unit, frac)| DimSrc::Radix { hex, digits: if hex { format!("{:X}", v) } else { format!("{:o}", v) }, unit, frac }),
+        4 => (0u8..3).prop_map(DimSrc::Dimen),
+        2 => (0u8..3).prop_map(DimSrc::Skip),
+        4 => ((0u8..3), unit_spec_strategy()).prop_map(|(j, u)| DimSrc::CountUnits(j, u)),
+        1 => ((0u8..5), unit_spec_strategy()).prop_map(|(j, u)| DimSrc::InternalUnits(j, u)),
+    ]
+}
+
+fn fil_coeff_strategy() -> impl Strategy<Value = FilCoeff> {
+    pick![
+        3 => (0u8..3).prop_map(FilCoeff::Count),
+        1 => (0u8..5).prop_map(FilCoeff::Internal),
+        1 => (0i64..70000).prop_map(|v| FilCoeff::Oct(format!("{:o}", v))),
+        1 => (0i64..70000).prop_map(|v| FilCoeff::Hex(format!("{:X}", v))),
     ]
 }
 
 fn stretch_strategy() -> impl Strategy<Value = StretchSrc> {
-    prop_oneof![
+    pick![
         3 => (signs_strategy(), dim_src_strategy()).prop_map(|(s, d)| StretchSrc::Dim(s, d)),
-        3 => (signs_strategy(), proptest::option::weighted(0.9, dim_int_strategy()), proptest::option::weighted(0.4, frac_strategy()), prop_oneof![6 => 0u8..3, 1 => Just(3u8)]).prop_map(|(signs, int, frac, ls)| StretchSrc::Fil { signs, int, frac, ls }),
+        3 => (signs_strategy(), proptest::option::weighted(0.9, dim_int_strategy()), proptest::option::weighted(0.4, frac_strategy()), pick![6 => 0u8..3, 1 => Just(3u8)], proptest::option::weighted(0.12, fil_coeff_strategy()))
+            .prop_map(|(signs, int, frac, ls, coeff)| StretchSrc::Fil { signs, int, frac, ls, coeff }),
     ]
 }
 
 fn glue_src_strategy() -> impl Strategy<Value = GlueSrc> {
-    prop_oneof![
+    pick![
         1 => (0u8..3).prop_map(GlueSrc::Skip),
         5 => (dim_src_strategy(), proptest::option::weighted(0.7, stretch_strategy()), proptest::option::weighted(0.5, stretch_strategy())).prop_map(|(width, plus, minus)| GlueSrc::Parts { width, plus, minus }),
     ]
 }
 
 fn kind_strategy() -> impl Strategy<Value = Kind> {
-    prop_oneof![Just(Kind::Count), Just(Kind::Dimen), Just(Kind::Skip)]
+    pick![1 => Just(Kind::Count), 1 => Just(Kind::Dimen), 1 => Just(Kind::Skip)]
+}
+
+fn blanks_strategy() -> impl Strategy<Value = Blanks> {
+    pick![3 => Just(Blanks(0)), 2 => (2u8..8).prop_map(Blanks)]
+}
+
+/// blanks in front of the further `l`s of `fil l l`: rare, because every program that has them is
+/// judged by the model of the listed deviation fil_l_blank_ends_unit instead of TeX's
+fn rare_blanks_strategy() -> impl Strategy<Value = Blanks> {
+    pick![7 => Just(Blanks(0)), 1 => (2u8..8).prop_map(Blanks)]
+}
+
+fn mask_strategy() -> impl Strategy<Value = u8> {
+    pick![3 => Just(0u8), 1 => Just(0xFFu8), 2 => any::<u8>()]
+}
+
+fn style_strategy() -> impl Strategy<Value = Style> {
+    (
+        (mask_strategy(), mask_strategy(), mask_strategy(), mask_strategy(), mask_strategy()),
+        (blanks_strategy(), blanks_strategy(), blanks_strategy(), blanks_strategy(), blanks_strategy(), blanks_strategy()),
+        (rare_blanks_strategy(), rare_blanks_strategy(), rare_blanks_strategy(), blanks_strategy()),
+        proptest::bool::weighted(0.3),
+        proptest::bool::weighted(0.4),
+    )
+        .prop_map(|((by_mask, plus_mask, minus_mask, true_mask, fil_mask), (pre_by, pre_plus, pre_minus, post_true, pre_unit, pre_fil), (l1, l2, l3, post_glue), upper_other, alias)| Style {
+            by_mask,
+            plus_mask,
+            minus_mask,
+            true_mask,
+            fil_mask,
+            pre_by,
+            pre_plus,
+            pre_minus,
+            post_true,
+            pre_unit,
+            pre_fil,
+            pre_l: [l1, l2, l3],
+            post_glue,
+            upper_other,
+            alias,
+        })
 }
 
 fn op_strategy() -> impl Strategy<Value = Op> {
     let by = proptest::bool::weighted(0.7);
-    prop_oneof![
+    pick![
         3 => (0u8..3, signs_strategy(), int_src_strategy()).prop_map(|(i, s, x)| Op::SetCount(i, s, x)),
         4 => (0u8..3, signs_strategy(), dim_src_strategy()).prop_map(|(i, s, x)| Op::SetDimen(i, s, x)),
         3 => (0u8..3, signs_strategy(), glue_src_strategy()).prop_map(|(i, s, x)| Op::SetSkip(i, s, x)),
@@ -872,10 +1550,26 @@ fn op_strategy() -> impl Strategy<Value = Op> {
         2 => (0u8..3, by.clone(), signs_strategy(), glue_src_strategy()).prop_map(|(i, b, s, x)| Op::AdvSkip(i, b, s, x)),
         3 => (kind_strategy(), 0u8..3, by.clone(), signs_strategy(), small_int_src_strategy()).prop_map(|(k, i, b, s, x)| Op::Mul(k, i, b, s, x)),
         3 => (kind_strategy(), 0u8..3, by, signs_strategy(), small_int_src_strategy()).prop_map(|(k, i, b, s, x)| Op::Div(k, i, b, s, x)),
+        3 => (kind_strategy(), 0u8..3, 0u8..3).prop_map(|(k, i, j)| Op::Copy(k, i, j)),
+        1 => (0u8..5).prop_map(Op::ReadInternal),
     ]
 }
 
-const FLAGS: [&str; 4] = ["multiply_accepts_min", "overflow_clamp_follows_unit_sign", "glue_sum_ignores_zero", "alpha_constant_expands"];
+/// 1-7 operations, each preceded by a change of spelling style with probability 0.3
+fn ops_strategy() -> impl Strategy<Value = Vec<Op>> {
+    proptest::collection::vec((proptest::option::weighted(0.3, style_strategy()), op_strategy()), 1..8).prop_map(|v| {
+        let mut out = vec![];
+        for (st, op) in v {
+            if let Some(st) = st {
+                out.push(Op::Style(st));
+            }
+            out.push(op);
+        }
+        out
+    })
+}
+
+const FLAGS: [&str; 5] = ["multiply_accepts_min", "overflow_clamp_follows_unit_sign", "glue_sum_ignores_zero", "alpha_constant_expands", "fil_l_blank_ends_unit"];
 
 fn dev_from_mask(mask: u32) -> Deviations {
     Deviations {
@@ -883,48 +1577,274 @@ fn dev_from_mask(mask: u32) -> Deviations {
         overflow_clamp_follows_unit_sign: mask & 2 != 0,
         glue_sum_ignores_zero: mask & 4 != 0,
         alpha_constant_expands: mask & 8 != 0,
+        fil_l_blank_ends_unit: mask & 16 != 0,
     }
+}
+
+/// What the VM did with one segment.
+struct SegResult {
+    got: String,
+    kinds: Vec<ErrKind>,
+    titles: Vec<String>,
+    fatal: Option<String>,
+}
+
+fn c06_vm() -> Box<texlang::vm::VM<texvm::HState>> {
+    let opts = VmOptions { count_and_continue: true, ..Default::default() };
+    let mut vm = texvm::new_vm(&opts);
+    vm.state.em_width = Some(Scaled(EM as i32));
+    vm.state.ex_height = Some(Scaled(EX as i32));
+    vm
+}
+
+/// One VM per program, one source per operation, so that output and errors are known per operation.
+fn run_segments(segs: &[Seg]) -> Vec<SegResult> {
+    let mut vm = c06_vm();
+    let mut out = vec![];
+    for (k, seg) in segs.iter().enumerate() {
+        let r = texvm::run_source(&mut vm, &format!("op{}.tex", k), &seg.text);
+        let mut kinds: Vec<ErrKind> = r.recovered_titles.iter().map(|t| classify(t)).collect();
+        kinds.sort();
+        let fatal = r.error.clone();
+        out.push(SegResult { got: texvm::plain(&r.out), kinds, titles: r.recovered_titles, fatal });
+        if out.last().unwrap().fatal.is_some() {
+            break;
+        }
+    }
+    out
+}
+
+/// First disagreement between the model and the VM, as (segment index, description).
+fn disagreement(b: &Built, rs: &[SegResult]) -> Option<(usize, String)> {
+    for (k, seg) in b.segs.iter().enumerate() {
+        if seg.undefined {
+            return None;
+        }
+        let Some(r) = rs.get(k) else {
+            return Some((k, "not reached: an earlier operation ended with a fatal error".to_string()));
+        };
+        if let Some(f) = &r.fatal {
+            return Some((k, format!("fatal error {:?}", f)));
+        }
+        if r.got != seg.expected {
+            return Some((k, format!("output {:?}, TeX gives {:?}", r.got, seg.expected)));
+        }
+        let mut want = seg.errs.clone();
+        want.sort();
+        if r.kinds != want {
+            return Some((k, format!("errors {:?} {:?}, TeX reports {:?}", r.kinds, r.titles, want)));
+        }
+    }
+    None
 }
 
 fn ops_oracle(ctx: &Ctx, ops: &Vec<Op>, case: &mut Case) -> Verdict {
     let b = build(ops, Deviations::default());
-    case.note = Some(b.text.clone());
+    case.note = Some(b.text());
     for c in &b.classes {
         case.class(c);
     }
-    let opts = VmOptions { count_and_continue: true, ..Default::default() };
-    let r = texvm::run_program(&opts, &b.text);
-    if b.undefined {
-        return Verdict::Skip("TeX negates -2^31 here (undefined)");
-    }
-    let got = texvm::plain(&r.out);
+    // a panic or a runaway (no C06 program needs 20 000 expansion steps) is a crash in the
+    // sense of the statement, also on inputs whose value TeX leaves undefined
+    let rs = match panics::catch(|| run_segments(&b.segs)) {
+        Ok(rs) => rs,
+        Err(p) => {
+            return Verdict::Fail(if p.budget { format!("step/error budget exceeded (runaway)\nprogram:\n{}", b.text()) } else { format!("panic at {}: {}\nprogram:\n{}", p.site(), p.message, b.text()) });
+        }
+    };
     let nontrivial = !b.classes.is_empty();
-    let agrees = |bb: &Built| r.error.is_none() && got == bb.expected && (r.recovered > 0) == (bb.errors > 0);
-    if agrees(&b) {
+    let Some((k, what)) = disagreement(&b, &rs) else {
+        if b.undefined {
+            return Verdict::Skip("TeX negates -2^31 here (undefined)");
+        }
         return Verdict::pass(nontrivial);
-    }
+    };
     // listed deviations, smallest subsets first
-    let listed: Vec<u32> = (0..4).filter(|i| ctx.known(&format!("flag:{}", FLAGS[*i as usize]))).collect();
-    let mut masks: Vec<u32> = (1u32..16).filter(|m| (0..4).all(|i| m & (1 << i) == 0 || listed.contains(&i))).collect();
+    let nf = FLAGS.len() as u32;
+    let listed: Vec<u32> = (0..nf).filter(|i| ctx.known(&format!("flag:{}", FLAGS[*i as usize]))).collect();
+    let mut masks: Vec<u32> = (1u32..1 << nf).filter(|m| (0..nf).all(|i| m & (1 << i) == 0 || listed.contains(&i))).collect();
     masks.sort_by_key(|m| m.count_ones());
     for m in masks {
         let b2 = build(ops, dev_from_mask(m));
-        if !b2.undefined && agrees(&b2) {
-            let names: Vec<&str> = (0..4).filter(|i| m & (1 << i) != 0).map(|i| FLAGS[i as usize]).collect();
+        // (a segment on which TeX is undefined ends the comparison in either model)
+        if disagreement(&b2, &rs).is_none() {
+            let names: Vec<&str> = (0..nf).filter(|i| m & (1 << i) != 0).map(|i| FLAGS[i as usize]).collect();
             return Verdict::Known(format!("flag:{}", names[0]));
         }
     }
-    Verdict::Fail(format!(
-        "output differs from TeX's arithmetic\nprogram:  {}\nexpected: {}  (errors: {})\ngot:      {}  (recovered errors: {}: {:?}; fatal: {:?})\nfirst difference at {}",
-        b.text,
-        b.expected,
-        b.errors,
-        got,
-        r.recovered,
-        r.recovered_titles.iter().take(4).collect::<Vec<_>>(),
-        r.error,
-        super::c01::first_diff(&b.expected, &got)
-    ))
+    Verdict::Fail(format!("operation #{} differs from TeX: {}\noperation: {}\nprogram:\n{}", k, what, b.segs[k].text, b.text()))
+}
+
+// ---- (e) all pairs of edge operands for \advance, \multiply, \divide
+
+fn arith_edges(thorough: bool) -> Vec<i64> {
+    let mut v: Vec<i64> = vec![0, 1, 2, 3, 7, 1 << 14, (1 << 15) - 1, 1 << 15, (1 << 15) + 1, 1 << 16, (1 << 29) + 1, (1 << 30) - 1, 1 << 30, (1 << 30) + 1, (1 << 31) - 2, (1 << 31) - 1];
+    if thorough {
+        v.extend([5, 10, 255, 1000, (1 << 14) - 1, (1 << 14) + 1, (1 << 16) - 1, (1 << 16) + 1, 46341, 46340, 1 << 20, (1 << 29) - 1, 1 << 29, 715827883, 1431655765]);
+    }
+    let mut out = vec![];
+    for x in v {
+        out.push(x);
+        if x != 0 {
+            out.push(-x);
+        }
+    }
+    out.push(-(1i64 << 31));
+    out
+}
+
+fn dec_src(v: i64) -> (Signs, IntSrc) {
+    (Signs(if v < 0 { vec![(true, false)] } else { vec![] }), IntSrc::Dec(format!("{}", v.abs())))
+}
+
+fn sp_src(v: i64) -> (Signs, DimSrc) {
+    (Signs(if v < 0 { vec![(true, false)] } else { vec![] }), DimSrc::Const { int: Some(format!("{}", v.abs())), frac: None, unit: UnitSpec::Unit(Unit::Sp, 0, false, 0), quirk: 0 })
+}
+
+/// split a 32-bit value into at most three legal dimensions
+fn split3(x: i64) -> Vec<i64> {
+    let mut rest = x;
+    let mut out = vec![];
+    loop {
+        let t = rest.clamp(-ta::MAX_DIMEN, ta::MAX_DIMEN);
+        out.push(t);
+        rest -= t;
+        if rest == 0 {
+            return out;
+        }
+    }
+}
+
+/// operations that leave the 32-bit value x in register `reg` of the kind (for glue: in component
+/// `comp`, the other two components get small non-zero values), using only in-range constants
+fn load_ops(kind: Kind, comp: u8, reg: u8, x: i64, out: &mut Vec<Op>) {
+    match kind {
+        Kind::Count => {
+            if x == -(1i64 << 31) {
+                let (s, v) = dec_src(-2147483647);
+                out.push(Op::SetCount(reg, s, v));
+                let (s, v) = dec_src(-1);
+                out.push(Op::AdvCount(reg, true, s, v));
+            } else {
+                let (s, v) = dec_src(x);
+                out.push(Op::SetCount(reg, s, v));
+            }
+        }
+        Kind::Dimen => {
+            for (k, t) in split3(x).into_iter().enumerate() {
+                let (s, v) = sp_src(t);
+                out.push(if k == 0 { Op::SetDimen(reg, s, v) } else { Op::AdvDimen(reg, false, s, v) });
+            }
+        }
+        Kind::Skip => {
+            let others = [5i64, -3, 7];
+            for (k, t) in split3(x).into_iter().enumerate() {
+                let val = |c: u8| if c == comp { t } else if k == 0 { others[c as usize] } else { 0 };
+                let (ws, w) = sp_src(val(0));
+                let (ps, p) = sp_src(val(1));
+                let (ms, m) = sp_src(val(2));
+                let g = GlueSrc::Parts { width: w, plus: Some(StretchSrc::Dim(ps, p)), minus: Some(StretchSrc::Dim(ms, m)) };
+                out.push(if k == 0 { Op::SetSkip(reg, ws, g) } else { Op::AdvSkip(reg, true, ws, g) });
+            }
+        }
+    }
+}
+
+/// index -> program: (kind/component) x (advance, multiply, divide) x E x E
+fn arith_program(idx: u64, e: &[i64]) -> Vec<Op> {
+    let n = e.len() as u64;
+    let ni = (idx % n) as usize;
+    let xi = ((idx / n) % n) as usize;
+    let opk = (idx / (n * n)) % 3;
+    let kc = (idx / (n * n * 3)) % 5;
+    let (kind, comp) = match kc {
+        0 => (Kind::Count, 0u8),
+        1 => (Kind::Dimen, 0),
+        k => (Kind::Skip, (k - 2) as u8),
+    };
+    let (x, nn) = (e[xi], e[ni]);
+    let via_register = (xi + ni) % 2 == 1;
+    let mut ops = vec![];
+    load_ops(kind, comp, 0, x, &mut ops);
+    match opk {
+        0 => match kind {
+            Kind::Count => {
+                if via_register || nn == -(1i64 << 31) {
+                    load_ops(Kind::Count, 0, 1, nn, &mut ops);
+                    ops.push(Op::AdvCount(0, true, Signs(vec![]), IntSrc::Count(1)));
+                } else {
+                    let (s, v) = dec_src(nn);
+                    ops.push(Op::AdvCount(0, true, s, v));
+                }
+            }
+            Kind::Dimen => {
+                // beyond max_dimen: the literal or the register is reported as too large and clamped
+                if via_register {
+                    load_ops(Kind::Dimen, 0, 1, nn, &mut ops);
+                    ops.push(Op::AdvDimen(0, true, Signs(vec![]), DimSrc::Dimen(1)));
+                } else {
+                    let (s, v) = sp_src(nn);
+                    ops.push(Op::AdvDimen(0, true, s, v));
+                }
+            }
+            Kind::Skip => {
+                // internal glue is added as it is, every component wraps silently
+                load_ops(Kind::Skip, comp, 1, nn, &mut ops);
+                ops.push(Op::AdvSkip(0, true, Signs(if via_register { vec![] } else { vec![(true, false), (true, false)] }), GlueSrc::Skip(1)));
+            }
+        },
+        _ => {
+            let (signs, src) = if via_register || nn == -(1i64 << 31) {
+                load_ops(Kind::Count, 0, 1, nn, &mut ops);
+                (Signs(vec![]), IntSrc::Count(1))
+            } else {
+                dec_src(nn)
+            };
+            ops.push(if opk == 1 { Op::Mul(kind, 0, true, signs, src) } else { Op::Div(kind, 0, true, signs, src) });
+        }
+    }
+    ops
+}
+
+// ---- print-then-rescan through the VM on a sample of values
+
+/// Eight values; each is loaded into \dimen1 (as <v>sp, reduced to the legal range), \skip1 (as
+/// width, fil stretch written with the decimals of print_scaled, negated shrink) and \count1 (all
+/// 32 bits), then copied by `\dimen2=\the\dimen1`, `\skip2=\the\skip1`, `\count2=\the\count1`.
+fn roundtrip_program(vals: &Vec<i64>) -> Vec<Op> {
+    let mut ops = vec![];
+    for (k, &w) in vals.iter().enumerate() {
+        // legal dimension derived from the 32-bit value
+        let v = if w.abs() <= ta::MAX_DIMEN { w } else { w / 2 };
+        let (s, d) = sp_src(v);
+        ops.push(Op::SetDimen(0, s, d));
+        ops.push(Op::Copy(Kind::Dimen, 0, 1));
+        let printed = ta::print_scaled(v.abs());
+        let mut it = printed.split('.');
+        let (int, frac) = (it.next().unwrap().to_string(), it.next().unwrap().to_string());
+        let (ws, wd) = sp_src(v);
+        let (ms, md) = sp_src(-v);
+        let plus = StretchSrc::Fil { signs: Signs(if v < 0 { vec![(true, false)] } else { vec![] }), int: Some(int), frac: Some((false, frac)), ls: (k % 3) as u8, coeff: None };
+        ops.push(Op::SetSkip(0, ws, GlueSrc::Parts { width: wd, plus: Some(plus), minus: Some(StretchSrc::Dim(ms, md)) }));
+        ops.push(Op::Copy(Kind::Skip, 0, 1));
+        load_ops(Kind::Count, 0, 0, w, &mut ops);
+        ops.push(Op::Copy(Kind::Count, 0, 1));
+    }
+    ops
+}
+
+fn roundtrip_strategy() -> impl Strategy<Value = Vec<i64>> {
+    let edges: Vec<i64> = {
+        let mut e = vec![0i64, 1, -1, ta::MAX_DIMEN, -ta::MAX_DIMEN, ta::INFINITY, -ta::INFINITY, -(1i64 << 31)];
+        for k in 1..31 {
+            for d in [-1i64, 0, 1] {
+                e.push((1i64 << k) + d);
+                e.push(-((1i64 << k) + d));
+            }
+        }
+        e
+    };
+    proptest::collection::vec(pick![2 => proptest::sample::select(edges), 6 => -ta::MAX_DIMEN..=ta::MAX_DIMEN, 1 => -(1i64 << 20)..(1i64 << 20), 2 => -(1i64 << 31)..(1i64 << 31)], 8)
 }
 
 // ---- integer constants with terminators and leftovers
@@ -932,55 +1852,98 @@ fn ops_oracle(ctx: &Ctx, ops: &Vec<Op>, case: &mut Case) -> Verdict {
 #[derive(Clone, Debug, Serialize, Deserialize)]
 pub struct IntConstCase {
     signs: Signs,
-    radix: u8,      // 0 dec, 1 oct, 2 hex
+    radix: u8,      // 0 dec, 1 oct, 2 hex, 3 alphabetic (spelling `alpha`)
     digits: String, // may contain characters that are not digits of the radix (they end the number)
-    term: u8,       // 0 space, 1 \relax, 2 ';', 3 'x'
+    term: u8,       // 0 space, 1 \relax, 2 ';', 3 'x', 4 two blank tokens (the second from \s)
+    #[serde(default)]
+    alpha: u8,
 }
 
+/// (spelling, value; None = improper constant, TeX reports an error). `\b` is a macro, `~` active.
+const ALPHAS: [(&str, Option<i64>); 18] = [
+    ("`a", Some(97)),
+    ("`A", Some(65)),
+    ("`\\a", Some(97)),
+    ("`\\%", Some(37)),
+    ("`\\^^M", Some(13)),
+    ("`\\b", Some(98)),
+    ("`~", Some(126)),
+    ("`{", Some(123)),
+    ("`}", Some(125)),
+    ("`#", Some(35)),
+    ("`$", Some(36)),
+    ("`&", Some(38)),
+    ("`\\\\", Some(92)),
+    ("`\\~", Some(126)),
+    ("`\\{", Some(123)),
+    ("` ", Some(32)),
+    ("`0", Some(48)),
+    ("`\\ab", None),
+];
+
 fn int_const_oracle(c: &IntConstCase, case: &mut Case) -> Verdict {
-    let radix: u32 = [10, 8, 16][(c.radix % 3) as usize];
-    let mut text = String::from("\\count1=");
+    let alpha = c.radix % 4 == 3;
+    let radix: u32 = [10, 8, 16, 10][(c.radix % 4) as usize];
+    let mut text = String::from("\\def\\b{c}\\def\\s{ }\\count1=");
     c.signs.render(&mut text);
-    match radix {
-        8 => text.push('\''),
-        16 => text.push('"'),
-        _ => {}
-    }
-    text.push_str(&c.digits);
     // valid prefix: upper-case hex digits only (TeX accepts A-F of category 11 or 12, never a-f)
     let mut valid: Vec<u8> = vec![];
     let mut rest = String::new();
-    let mut ended = false;
-    for ch in c.digits.chars() {
-        let d = match ch {
-            '0'..='9' => Some(ch as u32 - '0' as u32),
-            'A'..='F' => Some(ch as u32 - 'A' as u32 + 10),
-            _ => None,
-        };
-        if !ended {
-            if let Some(d) = d {
-                if d < radix {
-                    valid.push(d as u8);
-                    continue;
-                }
-            }
-            ended = true;
+    let mut alpha_value = None;
+    let mut after_word = false;
+    if alpha {
+        let (sp, v) = ALPHAS[(c.alpha as usize) % ALPHAS.len()];
+        text.push_str(sp);
+        alpha_value = v;
+        case.class("alphabetic constant");
+        case.class_if(sp == "`~", "alphabetic constant: active character");
+        case.class_if(matches!(sp, "`{" | "`}" | "`#" | "`$" | "`&" | "` "), "alphabetic constant: special category");
+        // what follows is never part of the constant; after a control word, letters would extend its name
+        let ends_in_word = sp.len() > 2 && sp.as_bytes()[1] == b'\\' && sp.as_bytes()[2].is_ascii_alphabetic();
+        after_word = ends_in_word;
+        rest = if ends_in_word { c.digits.trim_start_matches(|ch: char| ch.is_ascii_alphabetic()).to_string() } else { c.digits.clone() };
+        text.push_str(&rest);
+        case.class_if(rest.starts_with(|ch: char| ch.is_ascii_digit()), "alphabetic constant followed by a digit");
+    } else {
+        match radix {
+            8 => text.push('\''),
+            16 => text.push('"'),
+            _ => {}
         }
-        rest.push(ch);
+        text.push_str(&c.digits);
+        let mut ended = false;
+        for ch in c.digits.chars() {
+            let d = match ch {
+                '0'..='9' => Some(ch as u32 - '0' as u32),
+                'A'..='F' => Some(ch as u32 - 'A' as u32 + 10),
+                _ => None,
+            };
+            if !ended {
+                if let Some(d) = d {
+                    if d < radix {
+                        valid.push(d as u8);
+                        continue;
+                    }
+                }
+                ended = true;
+            }
+            rest.push(ch);
+        }
     }
-    let term = c.term % 4;
-    if radix == 10 && c.digits.is_empty() && term == 0 {
+    let term = c.term % 5;
+    let blank_term = term == 0 || term == 4;
+    if !alpha && radix == 10 && c.digits.is_empty() && blank_term {
         // "\\count1= \\the\\count1": blanks are skipped and the following \the is expanded into the number
         return Verdict::Skip("nothing between = and the reader");
     }
     let mut errors = 0;
-    let (mut v, big) = ta::scan_digits(&valid, radix as i64);
+    let (mut v, big) = if alpha { (alpha_value.unwrap_or(0), false) } else { ta::scan_digits(&valid, radix as i64) };
     if big {
         errors += 1;
         case.class("too big");
     }
-    let vacuous = valid.is_empty();
-    if vacuous && rest.is_empty() && term == 0 {
+    let vacuous = if alpha { alpha_value.is_none() } else { valid.is_empty() };
+    if vacuous && rest.is_empty() && blank_term {
         // TeX puts the blank back after "Missing number"; whether the blank survives the error
         // recovery is not part of the property's statement.
         return Verdict::Skip("missing number followed by a blank (recovery detail)");
@@ -993,30 +1956,52 @@ fn int_const_oracle(c: &IntConstCase, case: &mut Case) -> Verdict {
         v = -v;
     }
     let mut expected = String::new();
-    // leftovers are typeset; a space terminator is consumed only if it directly follows the digits
+    // leftovers are typeset; ONE blank is consumed, and only if it directly follows the constant
+    // (§442-444 "scan an optional space")
     expected.push_str(&rest);
+    let eaten = rest.is_empty() && !vacuous;
+    // a blank of the source line is no token after a control word or after another blank
+    let lit_tok = !(alpha && rest.is_empty() && (after_word || text.ends_with(' ')));
+    let mut typeset_blanks = |tokens: usize| {
+        for _ in 0..tokens - if eaten { tokens.min(1) } else { 0 } {
+            expected.push(' ');
+        }
+    };
     match term {
         0 => {
             text.push(' ');
-            if !rest.is_empty() || vacuous {
-                expected.push(' ');
-            }
+            typeset_blanks(lit_tok as usize);
         }
         1 => text.push_str("\\relax "),
         2 => {
             text.push(';');
             expected.push(';');
         }
-        _ => {
-            text.push('x');
+        3 => {
+            text.push_str(if alpha && rest.is_empty() && after_word { " x" } else { "x" });
             expected.push('x');
+        }
+        _ => {
+            text.push_str(" \\s ");
+            typeset_blanks(1 + lit_tok as usize);
+            case.class_if(eaten && lit_tok, "two blank tokens after a constant (one is eaten)");
         }
     }
     text.push_str("\\the\\count1;%");
-    expected.push_str(&format!("{};", v));
+    if term == 0 && !lit_tok {
+        // no blank token follows the constant, so "scan an optional space" (get_x_token, §443)
+        // expands the reader itself before the assignment is made: it delivers the old value 0
+        expected.push_str("0;");
+        case.class("reader expanded by the optional-space scan");
+    } else {
+        expected.push_str(&format!("{};", v));
+    }
     case.note = Some(text.clone());
     let opts = VmOptions { count_and_continue: true, ..Default::default() };
-    let r = texvm::run_program(&opts, &text);
+    let r = match panics::catch(|| texvm::run_program(&opts, &text)) {
+        Ok(r) => r,
+        Err(p) => return Verdict::Fail(format!("{} at {}: {}\nprogram: {}", if p.budget { "runaway" } else { "panic" }, p.site(), p.message, text)),
+    };
     let got = texvm::plain(&r.out);
     if vacuous {
         // Malformed input: the property only asks for a reported error (Texlang makes some of
@@ -1024,7 +2009,7 @@ fn int_const_oracle(c: &IntConstCase, case: &mut Case) -> Verdict {
         return if r.recovered > 0 || r.error.is_some() { Verdict::pass(true) } else { Verdict::Fail(format!("no error reported for a missing number\nprogram: {}\ngot: {:?}", text, got)) };
     }
     if r.error.is_none() && got == expected && (r.recovered > 0) == (errors > 0) {
-        return Verdict::pass(errors > 0 || !c.signs.0.is_empty() || radix != 10);
+        return Verdict::pass(errors > 0 || !c.signs.0.is_empty() || radix != 10 || alpha);
     }
     Verdict::Fail(format!("integer constant scanned differently from TeX\nprogram:  {}\nexpected: {:?} errors>0: {}\ngot:      {:?} recovered: {} {:?} fatal: {:?}", text, expected, errors > 0, got, r.recovered, r.recovered_titles, r.error))
 }
@@ -1032,24 +2017,30 @@ fn int_const_oracle(c: &IntConstCase, case: &mut Case) -> Verdict {
 fn int_const_strategy() -> impl Strategy<Value = IntConstCase> {
     (
         signs_strategy(),
-        0u8..3,
-        prop_oneof![
-            3 => "[0-9]{1,12}",
-            2 => "[0-7]{1,13}",
-            2 => "[0-9A-F]{1,10}",
-            1 => "[0-9A-Fa-f89]{0,6}",
+        pick![3 => 0u8..3, 1 => Just(3u8)],
+        pick![
+            3 => re("[0-9]{1,12}"),
+            2 => re("[0-7]{1,13}"),
+            2 => re("[0-9A-F]{1,10}"),
+            1 => re("[0-9A-Fa-f89]{0,6}"),
             2 => proptest::sample::select(vec!["2147483647", "2147483648", "2147483650", "17777777777", "20000000000", "7FFFFFFF", "80000000", "FFFFFFFFF", "0", "00", "", "9", "G"]).prop_map(|s| s.to_string()),
         ],
-        0u8..4,
+        0u8..5,
+        0u8..18,
     )
-        .prop_map(|(signs, radix, digits, term)| IntConstCase { signs, radix, digits, term })
+        .prop_map(|(signs, radix, digits, term, alpha)| {
+            // an alphabetic constant is mostly followed by its terminator at once
+            let digits = if radix == 3 && alpha % 3 != 0 { String::new() } else if radix == 3 { digits.chars().take(2).collect() } else { digits };
+            IntConstCase { signs, radix, digits, term, alpha }
+        })
 }
 
 pub fn run(ctx: &Ctx) {
-    ctx.rule("(a) every scaled value in the enumerated domain: Display/display_no_units equal TeX's print_scaled, parse_no_units and parse_from_string invert it, at most 5 fraction digits and no shorter fraction scans back; non-trivial = needs >=3 fraction digits. (b)-(e) proptest-generated sequences of assignments, coercions, \\advance, \\multiply, \\divide on count/dimen/skip registers (constants in every radix and unit, fractions of 0-20 digits, sign strings, internal quantities as values and as units, fil/fill/filll) rendered as one-line programs; every register is read back with \\the after each operation and the text plus the presence of recoverable errors must equal a transcription of TeX's scan_int/scan_dimen/scan_glue and arithmetic routines; non-trivial = touches an error/clamp path, a coercion, an internal unit, a fraction of >=3 digits, infinite glue or a wrap; distinct by program text");
-    ctx.assume("operand values on which TeX itself negates -2^31 (undefined in Pascal) are skipped and counted");
-    ctx.assume("\\mag is 1000 (the `true` keyword is a no-op); em = ex = 12pt (Texlang's default font quantities)");
-    ctx.assume("recoverable errors are compared as present/absent per program, not by exact count");
+    ctx.rule("(a) every scaled value in the enumerated domain: Display/display_no_units equal TeX's print_scaled, parse_no_units and parse_from_string invert it, at most 5 fraction digits and no shorter fraction scans back; non-trivial = needs >=3 fraction digits; parse_from_string on generated <int>[.<frac>]<unit> strings of every physical unit against scan_dimen. (b)-(e) proptest-generated sequences of assignments, coercions, \\advance, \\multiply, \\divide and print-then-rescan copies (\\dimen2=\\the\\dimen1) on count/dimen/skip registers (constants in every radix and unit, fractions of 0-20 digits, sign strings, internal quantities as values and as units, fil/fill/filll, keyword spellings in either case and category, optional blank tokens wherever TeX's scan_keyword accepts them) run one operation per VM source; every register is read back with \\the after each operation and the text plus the kinds of recoverable error of EVERY operation must equal a transcription of TeX's scan_int/scan_dimen/scan_glue and arithmetic routines; (e) additionally every pair of a fixed set of edge operands for each primitive and register kind; non-trivial = touches an error/clamp path, a coercion, an internal unit, a fraction of >=3 digits, infinite glue, a wrap, a rescan or a non-default spelling; distinct by program text");
+    ctx.assume("operand values on which TeX itself negates -2^31 (undefined in Pascal) are not compared (operations before them are) and counted as skipped; a panic or runaway on them is still a failure");
+    ctx.assume("\\mag is 1000 (the `true` keyword is a no-op); the harness state fixes the font quantities em = 655361sp, ex = 282168sp");
+    ctx.assume("recoverable errors are compared per operation as a multiset of kinds (number too big, dimension too large, arithmetic overflow, division by zero, other), recognised by words of Texlang's error titles; wording is not compared");
+    ctx.assume("category codes of the tokens \\the produces are not compared (the statement speaks of the decimal that is printed); that they scan back is checked by the Copy operations");
     let pfs_known = ctx.known("flag:parse_from_string_negative");
     let tier = ctx.tier;
     // (a)
@@ -1059,15 +2050,15 @@ pub fn run(ctx: &Ctx) {
             // every multiple of 65537 and powers of two +-{0,1,2}
             let mut edge: Vec<i64> = vec![];
             let mut v = 0i64;
-            while v <= ta::MAX_DIMEN {
+            while v <= ta::INFINITY {
                 edge.push(v);
                 edge.push(-v);
                 v += 65537;
             }
-            for k in 0..31 {
+            for k in 0..32 {
                 for d in -2i64..=2 {
                     let x = (1i64 << k) + d;
-                    if x.abs() <= ta::MAX_DIMEN {
+                    if x.abs() <= ta::INFINITY {
                         edge.push(x);
                         edge.push(-x);
                     }
@@ -1078,10 +2069,21 @@ pub fn run(ctx: &Ctx) {
             edge.sort();
             edge.dedup();
             let n = edge.len() as u64;
-            run_indexed(ctx, "scaled_edges", n, true, |i| edge[i as usize], |s: &i64, _| match check_scaled_value(*s, pfs_known) {
-                Ok(nt) => Verdict::pass(nt),
-                Err(e) => Verdict::Fail(e),
-            });
+            run_indexed(
+                ctx,
+                "scaled_edges",
+                n,
+                true,
+                |i| edge[i as usize],
+                |s: &i64, case| {
+                    let legal = s.abs() <= ta::MAX_DIMEN;
+                    case.class_if(!legal, "beyond max_dimen (Display only)");
+                    match if legal { check_scaled_value(*s, pfs_known) } else { check_scaled_display_only(*s) } {
+                        Ok(nt) => Verdict::pass(nt),
+                        Err(e) => Verdict::Fail(e),
+                    }
+                },
+            );
             run_generated(ctx, "scaled_random", 2_000_000, || -ta::MAX_DIMEN..=ta::MAX_DIMEN, |s: &i64, _| match check_scaled_value(*s, pfs_known) {
                 Ok(nt) => Verdict::pass(nt),
                 Err(e) => Verdict::Fail(e),
@@ -1089,12 +2091,28 @@ pub fn run(ctx: &Ctx) {
         }
         Tier::Thorough => {
             run_range(ctx, "scaled_all", -ta::MAX_DIMEN, ta::MAX_DIMEN, true, |s| check_scaled_value(s, pfs_known));
+            run_generated(ctx, "scaled_beyond", 4_000_000, || pick![1 => ta::MAX_DIMEN + 1..=ta::INFINITY, 1 => -ta::INFINITY..=-ta::MAX_DIMEN - 1], |s: &i64, _| match check_scaled_display_only(*s) {
+                Ok(nt) => Verdict::pass(nt),
+                Err(e) => Verdict::Fail(e),
+            });
         }
     }
+    let n = tier.pick(200_000u64, 5_000_000u64);
+    run_generated(ctx, "scaled_strings", n, scaled_string_strategy, |c: &ScaledString, case| scaled_string_oracle(c, case));
     // (b)
     let n = tier.pick(60_000u64, 1_500_000u64);
     run_generated(ctx, "vm_int_constants", n, int_const_strategy, |c: &IntConstCase, case| int_const_oracle(c, case));
+    // print-then-rescan through the VM scanner on a sample of values
+    let n = tier.pick(8_000u64, 400_000u64);
+    run_generated(ctx, "vm_roundtrip", n, roundtrip_strategy, |vals: &Vec<i64>, case| {
+        case.class_if(vals.iter().any(|v| v.abs() <= ta::MAX_DIMEN && ta::print_scaled(*v).split('.').nth(1).unwrap().len() == 5), "value printed with 5 fraction digits");
+        ops_oracle(ctx, &roundtrip_program(vals), case)
+    });
+    // (e) edge pairs
+    let e = arith_edges(tier == Tier::Thorough);
+    let total = 5 * 3 * (e.len() * e.len()) as u64;
+    run_indexed(ctx, "arith_pairs", total, true, |i| arith_program(i, &e), |ops: &Vec<Op>, case| ops_oracle(ctx, ops, case));
     // (c)-(e)
-    let n = tier.pick(120_000u64, 4_000_000u64);
-    run_generated(ctx, "vm_register_ops", n, || proptest::collection::vec(op_strategy(), 1..8), |ops: &Vec<Op>, case| ops_oracle(ctx, ops, case));
+    let n = tier.pick(150_000u64, 4_000_000u64);
+    run_generated(ctx, "vm_register_ops", n, ops_strategy, |ops: &Vec<Op>, case| ops_oracle(ctx, ops, case));
 }
